@@ -9,9 +9,12 @@ import DecModel.ScanNum
 import DecProofs.Properties.C04Scan
 import DecProofs.Properties.C13PackHelpers
 import DecProofs.Properties.C01ArithHelpers
+import DecProofs.Core.RoundQ
 
 namespace Dec.C04ScanNum
 open Dec.PackH Dec.ScanNum Dec.C13PackHelpers
+
+set_option linter.unnecessarySeqFocus false
 
 /-! ## 1. `buffer`: indices and slices -/
 
@@ -38,11 +41,13 @@ theorem slice_arrOf (buf : Bytes) (a b : Nat) (hab : a ≤ b) (hb : b ≤ buf.le
 theorem digitWord_digit (d : Nat) (hd : isDigitB d = true) : digitWord d = d - 48 := by
   simp only [isDigitB, Bool.and_eq_true, decide_eq_true_eq] at hd
   unfold digitWord wordOfI32
+  have h : ((d : Int) - 48) % 18446744073709551616 = (d : Int) - 48 := Int.emod_eq_of_lt (by omega) (by omega)
+  rw [h]
   omega
 
 theorem chainStep_val (c ch : Nat) (hch : 48 ≤ ch) (hb : 10 * c + ch < 2 ^ 64) :
     chainStep c ch = 10 * c + (ch - 48) := by
-  simp only [chainStep, add64, sub64, shl64, W64, Nat.shiftLeft_eq]
+  simp only [chainStep, AH.add64, AH.sub64, AH.shl64, Nat.reduceMod, Nat.reducePow]
   omega
 
 theorem chain_val (ds : Bytes) (hds : ∀ b ∈ ds, isDigitB b = true) :
@@ -94,5 +99,1412 @@ theorem readRun_val (buf : Bytes) (hbuf : ∀ b ∈ buf, isDigitB b = true) (h10
   have : (buf[a] - 48) * 10 ^ (b - a - 1) ≤ 9 * 10 ^ 18 := Nat.mul_le_mul hd' hp
   have : (9 : Nat) * 10 ^ 18 + 10 ^ 18 = 10 ^ 19 := by norm_num
   omega
+
+/-! ## 3. assembling the two halves -/
+
+/-- `assemble`: the two words of `coeff_high · scale_high + coeff_low` (both factors below 2^63, as the source comment
+of `__mul_64x64_to_128_fast` demands) -/
+theorem assemble_val (h s lo : Nat) (hh : h < 2 ^ 63) (hs : s < 2 ^ 63) (hlo : lo < 2 ^ 64) :
+    (assemble h s lo).1 < 2 ^ 64 ∧ (assemble h s lo).2 < 2 ^ 64 ∧
+      (assemble h s lo).1 + 2 ^ 64 * (assemble h s lo).2 = h * s + lo := by
+  have hv := C01ArithHelpers.mul64x64to128Fast_spec (CX := h) (CY := s) (by omega) (by omega)
+  obtain ⟨-, hw0, hw1⟩ := C01ArithHelpers.mul64x64to128Fast_general (CX := h) (CY := s) (by omega) (by omega)
+  have hP : h * s < 2 ^ 63 * 2 ^ 63 := Nat.mul_lt_mul'' hh hs
+  simp only [AH.U128.val] at hv
+  simp only [assemble]
+  generalize (AH.mul64x64to128Fast h s).w0 = w0 at *
+  generalize (AH.mul64x64to128Fast h s).w1 = w1 at *
+  generalize h * s = P at *
+  have hw1' : w1 < 2 ^ 63 := by omega
+  by_cases hcarry : AH.add64 w0 lo < lo
+  · rw [if_pos hcarry]
+    simp only [AH.add64] at hcarry ⊢
+    refine ⟨by omega, by omega, by omega⟩
+  · rw [if_neg hcarry]
+    simp only [AH.add64] at hcarry ⊢
+    refine ⟨by omega, by omega, by omega⟩
+
+/-! ## 4. `bid_get_BID128` returns the canonical encoding of `finish` (clear status word) -/
+
+/-- `get_eq_finish` with the pattern itself (not its decoding): the result of `bid_get_BID128` on a clear status word
+is the canonical encoding of the datum `finish` delivers, and the status word is `finish`'s flags. -/
+theorem get_finish_bits (sgn : Nat) (e : Int) (c0 c1 : Nat) (mode : Mode) (hs : sgn = 0 ∨ sgn = 2 ^ 63)
+    (hc0 : c0 < 2 ^ 64) (hc1 : c1 < 2 ^ 64) (hC0 : 0 < c0 + 2 ^ 64 * c1) (hC : c0 + 2 ^ 64 * c1 ≤ 10 ^ 34)
+    (he : -2147483648 ≤ e) (he' : e < 2147483647) :
+    ∃ r, get_BID128 sgn e (c0, c1) mode 0
+        = some (r, (finish mode (decide (sgn ≠ 0)) (c0 + 2 ^ 64 * c1) 1 (e - 6176) (e - 6176)).2) ∧
+      bits r = encode (finish mode (decide (sgn ≠ 0)) (c0 + 2 ^ 64 * c1) 1 (e - 6176) (e - 6176)).1 := by
+  have hn := norm34_lt (c0 + 2 ^ 64 * c1) e hC
+  rcases lt_trichotomy (norm34 (c0 + 2 ^ 64 * c1) e).2 0 with hlt | heq | hgt
+  · obtain ⟨r, m, hget, hround, hbits, hdec⟩ :=
+      get_underflow_decode sgn e c0 c1 mode 0 hs hc0 hc1 hC he he' hlt (Or.inl (by omega))
+    have hm : m < 10 ^ 34 := by
+      have := decode_WF (bits r)
+      rw [hdec] at this
+      simpa [Datum.WF, P34_eq'] using this.1
+    rw [ufFlags_zero] at hget
+    by_cases hr : (norm34 (c0 + 2 ^ 64 * c1) e).1 % 10 ^ (-(norm34 (c0 + 2 ^ 64 * c1) e).2).toNat = 0
+    · have hD : 0 < 10 ^ (-(norm34 (c0 + 2 ^ 64 * c1) e).2).toNat := Nat.pow_pos (by decide)
+      have h2 := roundInt_divmod_spec mode (decide (sgn ≠ 0)) (norm34 (c0 + 2 ^ 64 * c1) e).1 _ hD
+      rw [hr, roundInt_zero_rem] at h2
+      have hmq := RoundedInt_unique mode _ _ _ _ _ hD hround h2
+      rw [finish_uf_exact mode _ _ e hC0 hC hlt hr, ← hmq]
+      simp only [hr, decide_true, if_true] at hget
+      exact ⟨r, hget, hbits⟩
+    · rw [finish_uf_inexact mode _ _ e hC0 hC hlt hr m hm hround]
+      simp only [hr, decide_false, Bool.false_eq_true, if_false] at hget
+      exact ⟨r, hget, hbits⟩
+  · obtain ⟨r, hget, hbits⟩ := get_in_range sgn e c0 c1 mode 0 hs hc0 hc1 hC (by omega) (by omega)
+    rw [finish_in_range mode _ _ e hC0 hC (by omega) (by omega)]
+    exact ⟨r, hget, hbits⟩
+  · by_cases hin : (norm34 (c0 + 2 ^ 64 * c1) e).2 ≤ 12287
+    · obtain ⟨r, hget, hbits⟩ := get_in_range sgn e c0 c1 mode 0 hs hc0 hc1 hC (by omega) hin
+      rw [finish_in_range mode _ _ e hC0 hC (by omega) hin]
+      exact ⟨r, hget, hbits⟩
+    · have h0 : (norm34 (c0 + 2 ^ 64 * c1) e).2 > 12287 := by omega
+      obtain ⟨hA, hB⟩ := get_overflow sgn e c0 c1 mode 0 hs hc0 hc1 hC he he' h0
+      by_cases hpad : (norm34 (c0 + 2 ^ 64 * c1) e).1 * 10 ^ ((norm34 (c0 + 2 ^ 64 * c1) e).2 - 12287).toNat < 10 ^ 34
+      · obtain ⟨r, hget, hbits⟩ := hA hpad
+        rw [finish_pad mode _ _ e hC0 h0 hpad]
+        exact ⟨r, hget, hbits⟩
+      · obtain ⟨r, hget, hbits⟩ := hB hpad
+        rw [finish_ovf mode _ _ e hC0 h0 hpad]
+        rw [Nat.zero_or] at hget
+        exact ⟨r, hget, hbits⟩
+
+/-! ## 5. at most 34 digits -/
+
+/-- the sign word `sign_x` -/
+def signW (neg : Bool) : Nat := if neg then 0x8000000000000000 else 0
+
+theorem signW_cases (neg : Bool) : signW neg = 0 ∨ signW neg = 2 ^ 63 := by
+  cases neg <;> simp [signW]
+
+theorem signW_ne (neg : Bool) : decide (signW neg ≠ 0) = neg := by
+  cases neg <;> simp [signW]
+
+/-- what the literal with significant digits `C` and exponent `E` must convert to (`parseLiteralSpec`) -/
+def specOf (mode : Mode) (neg : Bool) (C : Nat) (E : Int) : Datum × Flags :=
+  if C = 0 then (zeroAt neg E, 0) else finish mode neg C 1 E E
+
+/-- a digit string that does not begin with `0` denotes a positive number -/
+theorem digitsVal_pos (sig : Bytes) (hsig : ∀ b ∈ sig, isDigitB b = true) (hne : sig ≠ [])
+    (hhead : sig.head? ≠ some 48) : 10 ^ (sig.length - 1) ≤ digitsVal sig := by
+  rcases sig with _ | ⟨d, t⟩
+  · exact absurd rfl hne
+  · have := C04Scan.digitsVal_ge d t (hsig d (by simp)) (by simpa using hhead)
+    simpa using this
+
+/-- the zero of line 512 -/
+theorem zero_bits (neg : Bool) (E : Int) :
+    bits128 (0, signW neg ||| AH.shl64
+      (if E + 6176 < 0 then (0 : Int) else if E + 6176 > 12287 then 12287 else E + 6176).toNat 49)
+      = encode (zeroAt neg E) := by
+  obtain ⟨x, hx, hx2⟩ : ∃ x : Nat, x = (if E + 6176 < 0 then (0 : Int) else if E + 6176 > 12287 then 12287
+      else E + 6176).toNat ∧ x ≤ 12287 := ⟨_, rfl, by split_ifs <;> omega⟩
+  rw [← hx]
+  have hcl : (clampInt eMin eMax E + 6176).toNat = x := by
+    rw [hx]; unfold clampInt eMin eMax; split_ifs <;> omega
+  have hsh : AH.shl64 x 49 = x * 2 ^ 49 := by
+    simp only [AH.shl64, Nat.reduceMod]
+    exact Nat.mod_eq_of_lt (by omega)
+  rw [hsh]
+  simp only [bits128, zeroAt, encode, hcl, signBit]
+  cases neg
+  · simp only [signW, Bool.false_eq_true, if_false, Nat.zero_or]; omega
+  · have := or_eq_add_of_lt 63 1 (x * 2 ^ 49) (by omega)
+    simp only [signW, if_true]
+    rw [show (0x8000000000000000 : Nat) = 2 ^ 63 * 1 by norm_num, this]
+    omega
+
+/-- packing a positive coefficient `≤ 10^34` given by its two words, on a clear status word -/
+theorem pack_finish (mode : Mode) (neg : Bool) (E : Int) (c0 c1 C : Nat) (hc0 : c0 < 2 ^ 64) (hc1 : c1 < 2 ^ 64)
+    (hC : c0 + 2 ^ 64 * c1 = C) (hC0 : 0 < C) (hC34 : C ≤ 10 ^ 34)
+    (hE1 : -2147483648 ≤ E + 6176) (hE2 : E + 6176 < 2147483647) :
+    pack (signW neg) (E + 6176) (c0, c1) mode 0
+      = some (encode (finish mode neg C 1 E E).1, (finish mode neg C 1 E E).2) := by
+  obtain ⟨r, hget, hbits⟩ := get_finish_bits (signW neg) (E + 6176) c0 c1 mode (signW_cases neg)
+    hc0 hc1 (by rw [hC]; exact hC0) (by rw [hC]; exact hC34) hE1 hE2
+  have hEe : E + 6176 - 6176 = E := by omega
+  rw [hC, signW_ne, hEe] at hget hbits
+  unfold pack
+  rw [hget, Option.map_some, ← hbits]
+  rfl
+
+theorem small_le19 (mode : Mode) (neg : Bool) (sig : Bytes) (E : Int)
+    (hsig : ∀ b ∈ sig, isDigitB b = true) (hhead : sig.head? ≠ some 48) (h0 : sig.length ≠ 0) (h19 : sig.length ≤ 19)
+    (hE1 : -2147483648 ≤ E + 6176) (hE2 : E + 6176 < 2147483647) :
+    (readRun (arrOf sig) 0 sig.length).bind (fun coeffHigh => pack (signW neg) (E + 6176) (coeffHigh, 0) mode 0)
+      = some (encode (finish mode neg (digitsVal sig) 1 E E).1, (finish mode neg (digitsVal sig) 1 E E).2) := by
+  have hne : sig ≠ [] := fun h => h0 (by rw [h]; rfl)
+  have hpos := digitsVal_pos sig hsig hne hhead
+  have hC0 : 0 < digitsVal sig := lt_of_lt_of_le (Nat.pow_pos (by decide)) hpos
+  have hlt := digitsVal_lt sig hsig
+  have hC34 : digitsVal sig ≤ 10 ^ 34 :=
+    le_of_lt (lt_of_lt_of_le hlt (Nat.pow_le_pow_right (by decide) (by omega)))
+  have hc0 : digitsVal sig < 2 ^ 64 :=
+    lt_of_lt_of_le hlt (le_trans (Nat.pow_le_pow_right (by decide) h19) (by norm_num))
+  rw [readRun_val sig hsig (by omega) 0 sig.length (by omega) (le_refl _) (by omega), List.take_length,
+    List.drop_zero, Option.bind_some]
+  exact pack_finish mode neg E (digitsVal sig) 0 (digitsVal sig) hc0 (by norm_num) (by omega) hC0 hC34 hE1 hE2
+
+/-- a digit string of `a + 17` digits is its first `a` digits times `10^17` plus its last 17 -/
+theorem split17 (sig : Bytes) (h17 : 17 ≤ sig.length) :
+    digitsVal sig = digitsVal (sig.take (sig.length - 17)) * 10 ^ 17 + digitsVal (sig.drop (sig.length - 17)) := by
+  have := digitsVal_append (sig.take (sig.length - 17)) (sig.drop (sig.length - 17))
+  rw [List.take_append_drop] at this
+  rw [this, List.length_drop]
+  congr 3; omega
+
+theorem small_le34 (mode : Mode) (neg : Bool) (sig : Bytes) (E : Int)
+    (hsig : ∀ b ∈ sig, isDigitB b = true) (hhead : sig.head? ≠ some 48) (h19 : ¬ sig.length ≤ 19)
+    (hn : sig.length ≤ 34) (hE1 : -2147483648 ≤ E + 6176) (hE2 : E + 6176 < 2147483647) :
+    (readRun (arrOf sig) 0 (sig.length - 17)).bind (fun coeffHigh =>
+      (readRun (arrOf sig) (sig.length - 17) sig.length).bind (fun coeffLow =>
+        pack (signW neg) (E + 6176) (assemble coeffHigh 100000000000000000 coeffLow) mode 0))
+      = some (encode (finish mode neg (digitsVal sig) 1 E E).1, (finish mode neg (digitsVal sig) 1 E E).2) := by
+  have hne : sig ≠ [] := fun h => h19 (by rw [h]; simp)
+  have hpos := digitsVal_pos sig hsig hne hhead
+  have hC0 : 0 < digitsVal sig := lt_of_lt_of_le (Nat.pow_pos (by decide)) hpos
+  have hlt := digitsVal_lt sig hsig
+  have hC34 : digitsVal sig ≤ 10 ^ 34 :=
+    le_of_lt (lt_of_lt_of_le hlt (Nat.pow_le_pow_right (by decide) hn))
+  have hn17 : sig.length - 17 ≤ sig.length := by omega
+  rw [readRun_val sig hsig (by omega) 0 (sig.length - 17) (by omega) hn17 (by omega), List.drop_zero,
+    Option.bind_some,
+    readRun_val sig hsig (by omega) (sig.length - 17) sig.length (by omega) (le_refl _) (by omega),
+    List.take_length, Option.bind_some]
+  have hsplit := split17 sig (by omega)
+  have hH := digitsVal_lt (sig.take (sig.length - 17)) (fun b hb => hsig b (List.mem_of_mem_take hb))
+  have hL := digitsVal_lt (sig.drop (sig.length - 17)) (fun b hb => hsig b (List.mem_of_mem_drop hb))
+  rw [List.length_take, Nat.min_eq_left hn17] at hH
+  rw [List.length_drop, show sig.length - (sig.length - 17) = 17 by omega] at hL
+  have hH' : digitsVal (sig.take (sig.length - 17)) < 10 ^ 17 :=
+    lt_of_lt_of_le hH (Nat.pow_le_pow_right (by decide) (by omega))
+  generalize digitsVal (sig.take (sig.length - 17)) = H at *
+  generalize digitsVal (sig.drop (sig.length - 17)) = L at *
+  obtain ⟨a0, a1, aval⟩ := assemble_val H 100000000000000000 L (by omega) (by norm_num) (by omega)
+  generalize assemble H 100000000000000000 L = CX at a0 a1 aval
+  obtain ⟨c0, c1⟩ := CX
+  exact pack_finish mode neg E c0 c1 (digitsVal sig) a0 a1 (by rw [aval, hsplit]; norm_num) hC0 hC34 hE1 hE2
+
+/-- **At most 34 digits** (lines 506–550): the digits are assembled exactly and packed; the result is the canonical
+encoding of the literal's `finish` value with exactly its flags (a zero for no digits at all). -/
+theorem smallPath_correct (mode : Mode) (neg : Bool) (sig : Bytes) (E : Int)
+    (hsig : ∀ b ∈ sig, isDigitB b = true) (hhead : sig.head? ≠ some 48) (hn : sig.length ≤ 34)
+    (hE1 : -2147483648 ≤ E + 6176) (hE2 : E + 6176 < 2147483647) :
+    smallPath mode (signW neg) (arrOf sig) sig.length (E + 6176)
+      = some (encode (specOf mode neg (digitsVal sig) E).1, (specOf mode neg (digitsVal sig) E).2) := by
+  unfold smallPath
+  by_cases h0 : sig.length = 0
+  · rw [if_pos h0]
+    have : sig = [] := List.eq_nil_of_length_eq_zero h0
+    subst this
+    simp only
+    rw [zero_bits]
+    simp only [specOf, digitsVal_nil, if_true]
+  · rw [if_neg h0]
+    have hne : sig ≠ [] := fun h => h0 (by rw [h]; rfl)
+    have hpos := digitsVal_pos sig hsig hne hhead
+    have hC0 : 0 < digitsVal sig := lt_of_lt_of_le (Nat.pow_pos (by decide)) hpos
+    have hspec : specOf mode neg (digitsVal sig) E = finish mode neg (digitsVal sig) 1 E E := by
+      unfold specOf; rw [if_neg (by omega)]
+    rw [hspec]
+    by_cases h19 : sig.length ≤ 19
+    · rw [if_pos h19]
+      exact small_le19 mode neg sig E hsig hhead h0 h19 hE1 hE2
+    · rw [if_neg h19]
+      exact small_le34 mode neg sig E hsig hhead h19 hn hE1 hE2
+
+/-! ## 6. `finish` on a 34-digit number followed by a non-zero tail: `(C + T/Y)·10^x` -/
+
+theorem finish_congr_val (mode : Mode) (neg : Bool) (n d n' d' : Nat) (e e' pref : Int) (hn : 0 < n) (hd : 0 < d)
+    (hn' : 0 < n') (hd' : 0 < d') (hv : (n : ℚ) / d * (10 : ℚ) ^ e = (n' : ℚ) / d' * (10 : ℚ) ^ e') :
+    finish mode neg n d e pref = finish mode neg n' d' e' pref := by
+  rw [finish_eq_iff mode neg n d e pref hn hd, hv, ← finish_eq_iff mode neg n' d' e' pref hn' hd']
+
+/-- `C + T/Y` lies in `[C, C + 1)` -/
+theorem frac_bounds (C Y T : Nat) (hT : T < Y) :
+    (C : ℚ) ≤ ((C * Y + T : Nat) : ℚ) / Y ∧ ((C * Y + T : Nat) : ℚ) / Y < (C : ℚ) + 1 := by
+  have hY : (0 : ℚ) < Y := by exact_mod_cast (by omega : 0 < Y)
+  have hTq : (T : ℚ) < Y := by exact_mod_cast hT
+  have hT0 : (0 : ℚ) ≤ T := by positivity
+  rw [← quot_add_rem_div C T Y (by omega)]
+  constructor
+  · have : (0 : ℚ) ≤ (T : ℚ) / Y := by positivity
+    linarith
+  · have : (T : ℚ) / Y < 1 := by rw [div_lt_one hY]; exact hTq
+    linarith
+
+theorem div_zpow_ten (w : ℚ) (x x' : Int) : w * (10 : ℚ) ^ x / (10 : ℚ) ^ x' = w * (10 : ℚ) ^ (x - x') := by
+  rw [zpow_sub₀ ten_ne]
+  have : (10 : ℚ) ^ x' ≠ 0 := (ten_zpow_pos _).ne'
+  field_simp
+
+/-- a 34-digit number with a proper fraction after it is not a member of the format, at any exponent -/
+theorem not_member_of_frac (C Y T : Nat) (x : Int) (hC : 10 ^ 33 ≤ C) (hT0 : 0 < T) (hT : T < Y) :
+    ¬ IsMember (((C * Y + T : Nat) : ℚ) / Y * (10 : ℚ) ^ x) := by
+  rintro ⟨m', x', hr, hv⟩
+  rw [fval_false] at hv
+  have hY : 0 < Y := by omega
+  have hw : (10 : ℚ) ^ (33 : ℤ) ≤ ((C * Y + T : Nat) : ℚ) / Y := by
+    refine le_trans ?_ (frac_bounds C Y T hT).1
+    exact_mod_cast hC
+  have hx := member_ge_x0 hr hv (Or.inr hw)
+  have hint := member_int hx hv
+  have hYq : (Y : ℚ) ≠ 0 := by exact_mod_cast hY.ne'
+  have : ((C * Y + T : Nat) : ℚ) = ((m' * 10 ^ (x' - x).toNat * Y : Nat) : ℚ) := by
+    rw [Nat.cast_mul (m' * 10 ^ (x' - x).toNat) Y, ← hint]; field_simp
+  have hnat : C * Y + T = m' * 10 ^ (x' - x).toNat * Y := by exact_mod_cast this
+  have : T % Y = 0 := by
+    have h1 : (C * Y + T) % Y = 0 := by rw [hnat]; exact Nat.mul_mod_left _ _
+    rwa [Nat.mul_comm, Nat.mul_add_mod] at h1
+  rw [Nat.mod_eq_of_lt hT] at this
+  omega
+
+/-- the value is at least `10^33 · 10^x` -/
+theorem frac_val_ge (C Y T : Nat) (x : Int) (hC : 10 ^ 33 ≤ C) (hT : T < Y) :
+    (10 : ℚ) ^ (33 + x) ≤ ((C * Y + T : Nat) : ℚ) / Y * (10 : ℚ) ^ x := by
+  rw [zpow_add₀ ten_ne]
+  apply mul_le_mul_of_nonneg_right _ (ten_zpow_pos _).le
+  refine le_trans ?_ (frac_bounds C Y T hT).1
+  exact_mod_cast hC
+
+/-- rounding `(C + T/Y)·10^k` for `k ≥ 1` gives at least `10^34` -/
+theorem frac_scaled_ge (mode : Mode) (neg : Bool) (C Y T : Nat) (d : Int) (hd : 1 ≤ d) (hC : 10 ^ 33 ≤ C) (hT : T < Y)
+    (M' : Nat) (h : RoundedTo mode neg (((C * Y + T : Nat) : ℚ) / Y * (10 : ℚ) ^ d) M') : P34 ≤ M' := by
+  apply RoundedTo_ge _ h
+  have h1 : (10 : ℚ) ^ (1 : ℤ) ≤ (10 : ℚ) ^ d := zpow_le_zpow_right₀ one_lt_ten.le hd
+  have h2 : ((10 ^ 33 : Nat) : ℚ) ≤ ((C * Y + T : Nat) : ℚ) / Y :=
+    le_trans (by exact_mod_cast hC) (frac_bounds C Y T hT).1
+  have h3 : (0 : ℚ) ≤ ((C * Y + T : Nat) : ℚ) / Y := le_trans (by positivity) h2
+  calc ((P34 : Nat) : ℚ) = ((10 ^ 33 : Nat) : ℚ) * (10 : ℚ) ^ (1 : ℤ) := by rw [P34_cast]; norm_num
+    _ ≤ ((C * Y + T : Nat) : ℚ) / Y * (10 : ℚ) ^ (1 : ℤ) := mul_le_mul_of_nonneg_right h2 (by norm_num)
+    _ ≤ ((C * Y + T : Nat) : ℚ) / Y * (10 : ℚ) ^ d := mul_le_mul_of_nonneg_left h1 h3
+
+/-- **normal range, inexact, no carry**: the 34 digits rounded by the tail, at their own exponent; inexact only -/
+theorem finish_frac_normal (mode : Mode) (neg : Bool) (C Y T : Nat) (x pref : Int) (hC1 : 10 ^ 33 ≤ C)
+    (hT0 : 0 < T) (hT : T < Y) (hx0 : eMin ≤ x) (hx1 : x ≤ eMax) (hM : roundInt mode neg C T Y < 10 ^ 34) :
+    finish mode neg (C * Y + T) Y x pref = (.fin neg (roundInt mode neg C T Y) x, fInexact) := by
+  have hY : 0 < Y := by omega
+  rw [finish_eq_iff mode neg _ Y x pref (by omega) hY]
+  right; left
+  refine ⟨not_member_of_frac C Y T x hC1 hT0 hT, roundInt mode neg C T Y, x, ?_, by rw [P34_eq']; exact hM, hx0, hx1,
+    ?_, ?_⟩
+  · have hge := frac_val_ge C Y T x hC1 hT
+    have : (10 : ℚ) ^ (-6143 : ℤ) ≤ (10 : ℚ) ^ (33 + x) :=
+      zpow_le_zpow_right₀ one_lt_ten.le (by unfold eMin at hx0; omega)
+    rw [if_neg (not_lt.2 (le_trans this hge))]
+  · rw [div_zpow_ten, sub_self, zpow_zero, mul_one, ← quot_add_rem_div C T Y hY]
+    exact roundInt_RoundedTo mode neg C T Y hT
+  · intro x' M' h1 h2 h3
+    rw [div_zpow_ten] at h3
+    exact frac_scaled_ge mode neg C Y T (x - x') (by omega) hC1 hT M' h3
+
+/-- **normal range, inexact, carry to `10^34`**: `10^33` one exponent up -/
+theorem finish_frac_carry (mode : Mode) (neg : Bool) (C Y T : Nat) (x pref : Int) (hC1 : 10 ^ 33 ≤ C)
+    (hT0 : 0 < T) (hT : T < Y) (hx0 : eMin ≤ x) (hx1 : x + 1 ≤ eMax) (hM : roundInt mode neg C T Y = 10 ^ 34) :
+    finish mode neg (C * Y + T) Y x pref = (.fin neg (10 ^ 33) (x + 1), fInexact) := by
+  have hY : 0 < Y := by omega
+  have hR : RoundedTo mode neg (((C * Y + T : Nat) : ℚ) / Y) P34 := by
+    have := roundInt_RoundedTo mode neg C T Y hT
+    rwa [quot_add_rem_div C T Y hY, hM, ← P34_eq'] at this
+  rw [finish_eq_iff mode neg _ Y x pref (by omega) hY]
+  right; left
+  refine ⟨not_member_of_frac C Y T x hC1 hT0 hT, 10 ^ 33, x + 1, ?_, by rw [P34_eq']; norm_num, by omega, hx1, ?_, ?_⟩
+  · have hge := frac_val_ge C Y T x hC1 hT
+    have : (10 : ℚ) ^ (-6143 : ℤ) ≤ (10 : ℚ) ^ (33 + x) :=
+      zpow_le_zpow_right₀ one_lt_ten.le (by unfold eMin at hx0; omega)
+    rw [if_neg (not_lt.2 (le_trans this hge))]
+  · apply inexact_clause_rounded
+    right
+    refine ⟨P33_eq'.symm, ?_⟩
+    rw [div_zpow_ten, show x - (x + 1 - 1) = 0 by ring, zpow_zero, mul_one]
+    exact hR
+  · intro x' M' h1 h2 h3
+    rw [div_zpow_ten] at h3
+    have hle : ((C * Y + T : Nat) : ℚ) / Y ≤ ((C * Y + T : Nat) : ℚ) / Y * (10 : ℚ) ^ (x - x') := by
+      have h0 : (0 : ℚ) ≤ ((C * Y + T : Nat) : ℚ) / Y := by positivity
+      have : (1 : ℚ) ≤ (10 : ℚ) ^ (x - x') := by
+        have := zpow_le_zpow_right₀ one_lt_ten.le (show (0 : ℤ) ≤ x - x' by omega)
+        simpa using this
+      nlinarith
+    exact RoundedTo_mono hle hR h3
+
+/-- **above the largest exponent**: overflow -/
+theorem finish_frac_ovf (mode : Mode) (neg : Bool) (C Y T : Nat) (x pref : Int) (hC1 : 10 ^ 33 ≤ C)
+    (hT0 : 0 < T) (hT : T < Y) (hx : eMax < x ∨ (x = eMax ∧ roundInt mode neg C T Y = 10 ^ 34)) :
+    finish mode neg (C * Y + T) Y x pref = (overflowResult mode neg, fOverflow ||| fInexact) := by
+  have hY : 0 < Y := by omega
+  rw [finish_eq_iff mode neg _ Y x pref (by omega) hY]
+  right; right
+  refine ⟨not_member_of_frac C Y T x hC1 hT0 hT, rfl, ?_⟩
+  rcases hx with hx | ⟨hx, hM⟩
+  · have h0 : (0 : ℚ) ≤ ((C * Y + T : Nat) : ℚ) / Y * (10 : ℚ) ^ (x - eMax) :=
+      mul_nonneg (by positivity) (ten_zpow_pos _).le
+    obtain ⟨M', hM'⟩ := RoundedTo_exists mode neg h0
+    refine ⟨M', by rw [div_zpow_ten]; exact hM', frac_scaled_ge mode neg C Y T (x - eMax) (by omega) hC1 hT M' hM'⟩
+  · subst hx
+    refine ⟨P34, ?_, le_refl _⟩
+    rw [div_zpow_ten, sub_self, zpow_zero, mul_one]
+    have := roundInt_RoundedTo mode neg C T Y hT
+    rwa [quot_add_rem_div C T Y hY, hM, ← P34_eq'] at this
+
+/-- for a coefficient of 34 digits the preferred exponent does not matter as long as it is not above the
+coefficient's own exponent: every member of the cohort has a larger or equal exponent -/
+theorem finish_pref_34 (mode : Mode) (neg : Bool) (C : Nat) (x p : Int) (hC : 10 ^ 33 ≤ C) (hp : p ≤ x) :
+    finish mode neg C 1 x p = finish mode neg C 1 x x := by
+  have hC0 : 0 < C := lt_of_lt_of_le (by norm_num) hC
+  rw [finish_eq_iff mode neg C 1 x p hC0 (by norm_num)]
+  have hs := finish_spec_strict mode neg C 1 x x hC0 (by norm_num)
+  have hCq : (10 : ℚ) ^ (33 : ℤ) ≤ (C : ℚ) / ((1 : Nat) : ℚ) := by
+    rw [Nat.cast_one, div_one]; exact_mod_cast hC
+  rcases hs with ⟨hm, m, xr, ho, hv, hrep, hclose⟩ | h | h
+  · left
+    refine ⟨hm, m, xr, ho, hv, hrep, fun m' x' hr' hv' => ?_⟩
+    have h1 : x ≤ xr := member_ge_x0 hrep (by rw [← fval_false]; exact hv) (Or.inr hCq)
+    have h2 : x ≤ x' := member_ge_x0 hr' (by rw [← fval_false]; exact hv') (Or.inr hCq)
+    have hcl := hclose m' x' hr' hv'
+    rw [abs_of_nonneg (by omega), abs_of_nonneg (by omega)] at hcl
+    rw [abs_of_nonneg (by omega), abs_of_nonneg (by omega)]
+    omega
+  · exact Or.inr (Or.inl h)
+  · exact Or.inr (Or.inr h)
+
+/-! ## 7. `bid_get_BID128` on any status word -/
+
+theorem w128_lt (n : Nat) (h : n < 2 ^ 128) : (w128 n).1 < 2 ^ 64 ∧ (w128 n).2 < 2 ^ 64 := by
+  simp only [w128]; omega
+
+/-- exponent in range after the `10^34` normalisation: packed as is, status word untouched -/
+theorem pack_inrange (mode : Mode) (neg : Bool) (e : Int) (c0 c1 C : Nat) (fpsc : Nat) (hc0 : c0 < 2 ^ 64)
+    (hc1 : c1 < 2 ^ 64) (hC : c0 + 2 ^ 64 * c1 = C) (hC34 : C ≤ 10 ^ 34)
+    (h0 : 0 ≤ (norm34 C e).2) (h1 : (norm34 C e).2 ≤ 12287) :
+    pack (signW neg) e (c0, c1) mode fpsc
+      = some (encode (.fin neg (norm34 C e).1 ((norm34 C e).2 - 6176)), fpsc) := by
+  obtain ⟨r, hget, hbits⟩ := get_in_range (signW neg) e c0 c1 mode fpsc (signW_cases neg) hc0 hc1
+    (by rw [hC]; exact hC34) (by rw [hC]; exact h0) (by rw [hC]; exact h1)
+  rw [hC, signW_ne] at hbits
+  unfold pack
+  rw [hget, Option.map_some, ← hbits]
+  rfl
+
+/-- exponent above the maximum, coefficient of 34 digits: overflow -/
+theorem pack_ovf (mode : Mode) (neg : Bool) (e : Int) (c0 c1 C : Nat) (fpsc : Nat) (hc0 : c0 < 2 ^ 64)
+    (hc1 : c1 < 2 ^ 64) (hC : c0 + 2 ^ 64 * c1 = C) (hC33 : 10 ^ 33 ≤ C) (hC34 : C ≤ 10 ^ 34)
+    (he : -2147483648 ≤ e) (he' : e < 2147483647) (h0 : (norm34 C e).2 > 12287) :
+    pack (signW neg) e (c0, c1) mode fpsc
+      = some (encode (overflowResult mode neg), fpsc ||| (fOverflow ||| fInexact)) := by
+  obtain ⟨-, hB⟩ := get_overflow (signW neg) e c0 c1 mode fpsc (signW_cases neg) hc0 hc1
+    (by rw [hC]; exact hC34) he he' (by rw [hC]; exact h0)
+  rw [hC] at hB
+  have hbig : ¬ (norm34 C e).1 * 10 ^ ((norm34 C e).2 - 12287).toNat < 10 ^ 34 := by
+    have h33 : 10 ^ 33 ≤ (norm34 C e).1 := by
+      unfold norm34; split_ifs
+      · simp
+      · simpa using hC33
+    have h10 : 10 ^ 1 ≤ 10 ^ ((norm34 C e).2 - 12287).toNat := Nat.pow_le_pow_right (by decide) (by omega)
+    have := Nat.mul_le_mul h33 h10
+    have e34 : (10 : Nat) ^ 33 * 10 ^ 1 = 10 ^ 34 := by norm_num
+    omega
+  obtain ⟨r, hget, hbits⟩ := hB hbig
+  rw [signW_ne] at hbits
+  unfold pack
+  rw [hget, Option.map_some, ← hbits]
+  rfl
+
+/-- negative exponent after the normalisation: one rounding at the least exponent -/
+theorem pack_uf (mode : Mode) (neg : Bool) (e : Int) (c0 c1 C : Nat) (fpsc : Nat) (hc0 : c0 < 2 ^ 64)
+    (hc1 : c1 < 2 ^ 64) (hC : c0 + 2 ^ 64 * c1 = C) (hC0 : 0 < C) (hC34 : C ≤ 10 ^ 34)
+    (he : -2147483648 ≤ e) (he' : e < 2147483647) (h0 : (norm34 C e).2 < 0) :
+    ∃ m, pack (signW neg) e (c0, c1) mode fpsc
+        = some (encode (.fin neg m eMin),
+            ufFlags fpsc (decide ((norm34 C e).1 % 10 ^ (-(norm34 C e).2).toNat = 0))) ∧
+      RoundedInt mode neg (norm34 C e).1 (10 ^ (-(norm34 C e).2).toNat) m ∧ m < 10 ^ 34 := by
+  obtain ⟨r, m, hget, hround, hbits, hdec⟩ := get_underflow_decode (signW neg) e c0 c1 mode fpsc (signW_cases neg)
+    hc0 hc1 (by rw [hC]; exact hC34) he he' (by rw [hC]; exact h0) (Or.inl (by omega))
+  simp only [hC, signW_ne] at hget hround hbits hdec
+  have hm : m < 10 ^ 34 := by
+    have := decode_WF (bits r)
+    rw [hdec] at this
+    simpa [Datum.WF, P34_eq'] using this.1
+  refine ⟨m, ?_, hround, hm⟩
+  unfold pack
+  rw [hget, Option.map_some, ← hbits]
+  rfl
+
+/-- **the sticky-digit call**: a coefficient of 35 digits (`10^34 ≤ CX ≤ 10^35`) at an exponent `−34 … −2`: one rounding
+of `CX / 10^(−e)` at the least exponent (a coefficient above `10^34` is outside the domain of `get_underflow`, but
+`handle_UF_128`'s tables have the room) -/
+theorem pack_scaled (mode : Mode) (neg : Bool) (x : Nat) (c0 c1 CX : Nat) (fpsc : Nat) (hc0 : c0 < 2 ^ 64)
+    (hc1 : c1 < 2 ^ 64) (hC : c0 + 2 ^ 64 * c1 = CX) (h1 : 10 ^ 34 ≤ CX) (h2 : CX ≤ 10 ^ 35)
+    (hx1 : 2 ≤ x) (hx2 : x ≤ 34) :
+    pack (signW neg) (-(x : Int)) (c0, c1) mode fpsc
+      = some (encode (.fin neg (roundInt mode neg (CX / 10 ^ x) (CX % 10 ^ x) (10 ^ x)) eMin),
+              ufFlags fpsc (decide (CX % 10 ^ x = 0))) := by
+  have hsw := signW_cases neg
+  unfold pack
+  rw [get_unfold (signW neg) _ c0 c1 mode fpsc hc0 hc1 (by omega) (by omega), hC]
+  by_cases h34 : CX = 10 ^ 34
+  · subst h34
+    have hn : norm34 (10 ^ 34) (-(x : Int)) = (10 ^ 33, -(x : Int) + 1) := by simp [norm34]
+    simp only [hn]
+    rw [if_neg (by omega), if_pos (by omega)]
+    have hw := w128_val (10 ^ 33)
+    have hwl := w128_lt (10 ^ 33) (by norm_num)
+    have hspec := handle_uf_spec (signW neg) (-(x : Int) + 1) (w128 (10 ^ 33)).1 (w128 (10 ^ 33)).2 mode fpsc
+      (by omega) (by omega) hwl.1 hwl.2 (by rw [hw]; norm_num) (Or.inl (by rw [hw]; norm_num))
+    rw [hw, signW_ne, show (-(-(x : Int) + 1)).toNat = x - 1 by omega] at hspec
+    have hdvd : (10 : Nat) ^ 33 % 10 ^ (x - 1) = 0 :=
+      Nat.mod_eq_zero_of_dvd (Nat.pow_dvd_pow 10 (by omega))
+    have hdvd' : (10 : Nat) ^ 34 % 10 ^ x = 0 := Nat.mod_eq_zero_of_dvd (Nat.pow_dvd_pow 10 hx2)
+    have hq : (10 : Nat) ^ 33 / 10 ^ (x - 1) = 10 ^ 34 / 10 ^ x := by
+      rw [Nat.pow_div (by omega) (by norm_num), Nat.pow_div hx2 (by norm_num)]
+      congr 1; omega
+    rw [hdvd, roundInt_zero_rem, hq] at hspec
+    rw [hdvd', roundInt_zero_rem]
+    have hm : 10 ^ 34 / 10 ^ x < 10 ^ 34 := Nat.div_lt_self (by norm_num) (Nat.one_lt_pow (by omega) (by norm_num))
+    have hb := (uf_bits (signW neg) (10 ^ 34 / 10 ^ x) hsw hm).1
+    rw [signW_ne] at hb
+    show Option.map _ (handle_UF_128 (signW neg) (-(x : Int) + 1) ((w128 (10 ^ 33)).1, (w128 (10 ^ 33)).2) mode fpsc) = _
+    rw [hspec, Option.map_some, ← hb]
+    rfl
+  · have hn : norm34 CX (-(x : Int)) = (CX, -(x : Int)) := by unfold norm34; rw [if_neg h34]
+    simp only [hn]
+    rw [if_neg (by omega), if_pos (by omega)]
+    have hw := w128_val CX
+    have hwl := w128_lt CX (lt_of_le_of_lt h2 (by norm_num))
+    have hspec := ufTail_spec (signW neg) x (w128 CX).1 (w128 CX).2 mode fpsc (by omega) (by omega) hwl.1 hwl.2
+      (by rw [hw]; exact h2)
+    rw [hw, signW_ne] at hspec
+    have hm : roundInt mode neg (CX / 10 ^ x) (CX % 10 ^ x) (10 ^ x) < 10 ^ 34 := by
+      have h1' := roundInt_le mode neg (CX / 10 ^ x) (CX % 10 ^ x) (10 ^ x)
+      have h10 : 10 ^ 2 ≤ 10 ^ x := Nat.pow_le_pow_right (by decide) hx1
+      have : CX / 10 ^ x ≤ 10 ^ 35 / 10 ^ 2 :=
+        le_trans (Nat.div_le_div_right h2) (Nat.div_le_div_left h10 (by norm_num))
+      have : (10 : Nat) ^ 35 / 10 ^ 2 + 1 < 10 ^ 34 := by norm_num
+      omega
+    have hb := (uf_bits (signW neg) _ hsw hm).1
+    rw [signW_ne] at hb
+    unfold handle_UF_128
+    rw [wrapI32_id _ (by omega) (by omega), if_neg (by omega), wrapI32_id _ (by omega) (by omega),
+      show (0 : Int) - -(x : Int) = (x : Int) by omega]
+    show Option.map _ (ufTail (signW neg) (x : Int) ((w128 CX).1, (w128 CX).2) mode fpsc) = _
+    rw [hspec, Option.map_some, ← hb]
+    rfl
+
+/-! ## 8. the carry at digit 35 -/
+
+/-- the rounding decision read off the first tail digit `a`, the rest `t` of the tail, and the parity -/
+theorem roundUp_lead (mode : Mode) (neg odd : Bool) (a P t : Nat) (ht : t < P) :
+    roundUp mode neg odd (a * P + t) (10 * P) =
+      match mode with
+      | .rne => if a = 5 ∧ odd = false then decide (0 < t) else decide (5 ≤ a)
+      | .rna => decide (5 ≤ a)
+      | .rtz => false
+      | .rdn => neg && decide (0 < a * P + t)
+      | .rup => !neg && decide (0 < a * P + t) := by
+  rw [Bool.eq_iff_iff]
+  rcases lt_trichotomy a 5 with h | h | h
+  · have hA : a * P ≤ 4 * P := Nat.mul_le_mul_right P (by omega)
+    have h5 : ¬ a = 5 := by omega
+    have h5' : ¬ 5 ≤ a := by omega
+    generalize a * P = A at *
+    cases mode <;> cases odd <;> cases neg <;> simp [roundUp, h5, h5'] <;> omega
+  · subst h
+    generalize hA : 5 * P = A at *
+    cases mode <;> cases odd <;> cases neg <;> simp [roundUp] <;> omega
+  · have hA : 6 * P ≤ a * P := Nat.mul_le_mul_right P (by omega)
+    have h5 : ¬ a = 5 := by omega
+    have h5' : 5 ≤ a := by omega
+    generalize a * P = A at *
+    cases mode <;> cases odd <;> cases neg <;> simp [roundUp, h5, h5'] <;> omega
+
+/-- "some digit is not `0`" is "the digit string is not zero" -/
+theorem anyAboveZero_iff (ds : Bytes) (hds : ∀ b ∈ ds, isDigitB b = true) :
+    anyAboveZero ds = decide (0 < digitsVal ds) := by
+  induction ds with
+  | nil => simp [anyAboveZero, digitsVal]
+  | cons d t ih =>
+    have hd : isDigitB d = true := hds d (by simp)
+    have hd' : 48 ≤ d ∧ d ≤ 57 := by simpa only [isDigitB, Bool.and_eq_true, decide_eq_true_eq] using hd
+    have iht := ih (fun b hb => hds b (by simp [hb]))
+    have hP : 0 < 10 ^ t.length := Nat.pow_pos (by decide)
+    unfold anyAboveZero at iht ⊢
+    rw [List.any_cons, iht, digitsVal_cons, Bool.eq_iff_iff]
+    simp only [Bool.or_eq_true, decide_eq_true_eq]
+    constructor
+    · rintro (h | h)
+      · have : 0 < (d - 48) * 10 ^ t.length := Nat.mul_pos (by omega) hP
+        omega
+      · omega
+    · intro h
+      by_cases hd0 : d > 48
+      · exact Or.inl hd0
+      · right
+        have : d - 48 = 0 := by omega
+        rw [this, Nat.zero_mul] at h
+        omega
+
+/-- the shape of a digit string of more than 34 digits around digit 35 -/
+theorem tail_shape (sig : Bytes) (hsig : ∀ b ∈ sig, isDigitB b = true) (hn : 35 ≤ sig.length) :
+    ∃ d35 t', sig.drop 34 = d35 :: t' ∧ sig.drop 35 = t' ∧ sig[34]? = some d35 ∧ isDigitB d35 = true ∧
+      (∀ b ∈ t', isDigitB b = true) ∧ t'.length = sig.length - 35 := by
+  have h34 : 34 < sig.length := by omega
+  refine ⟨sig[34], sig.drop 35, List.drop_eq_getElem_cons h34, rfl, List.getElem?_eq_getElem h34,
+    hsig _ (List.getElem_mem h34), fun b hb => hsig b (List.mem_of_mem_drop hb), by rw [List.length_drop]⟩
+
+/-- the carry the code computes when the exponent is not negative: the rounding of the 34 digits by the tail -/
+theorem carryOf_nonneg (mode : Mode) (neg : Bool) (sig : Bytes) (hsig : ∀ b ∈ sig, isDigitB b = true)
+    (hn1 : 35 ≤ sig.length) (hn2 : sig.length ≤ 100) (e : Int) (he : 0 ≤ e) (L : Nat) :
+    carryOf mode (signW neg) (arrOf sig) sig.length e L
+      = some (if roundUp mode neg (L % 2 == 1) (digitsVal (sig.drop 34)) (10 ^ (sig.length - 34)) then 1 else 0) := by
+  obtain ⟨d35, t', hdrop, hdrop', hget, hd, ht', hlen⟩ := tail_shape sig hsig hn1
+  have hd' : 48 ≤ d35 ∧ d35 ≤ 57 := by simpa only [isDigitB, Bool.and_eq_true, decide_eq_true_eq] using hd
+  have harr : (arrOf sig)[34]? = some d35 := by rw [arrOf_getElem? sig 34 (by omega) hn2, hget]
+  have hs34 : slice (arrOf sig) 34 sig.length = some (d35 :: t') := by
+    rw [slice_arrOf sig 34 sig.length (by omega) (le_refl _) hn2, List.take_length, hdrop]
+  have hs35 : slice (arrOf sig) 35 sig.length = some t' := by
+    rw [slice_arrOf sig 35 sig.length (by omega) (le_refl _) hn2, List.take_length, hdrop']
+  have hY : 10 ^ (sig.length - 34) = 10 * 10 ^ t'.length := by
+    rw [hlen, show sig.length - 34 = (sig.length - 35) + 1 by omega, Nat.pow_succ, Nat.mul_comm]
+  have htl := digitsVal_lt t' ht'
+  have hany : anyAboveZero (d35 :: t') = decide (0 < (d35 - 48) * 10 ^ t'.length + digitsVal t') := by
+    rw [anyAboveZero_iff _ (by intro b hb; rcases List.mem_cons.1 hb with rfl | hb; exact hd; exact ht' b hb),
+      digitsVal_cons]
+  have hany' : anyAboveZero t' = decide (0 < digitsVal t') := anyAboveZero_iff t' ht'
+  have hne : ¬ e < 0 := by omega
+  rw [hdrop, digitsVal_cons, hY, roundUp_lead mode neg _ (d35 - 48) _ _ htl]
+  have hsw : (signW neg ≠ 0) = (neg = true) := by cases neg <;> simp [signW]
+  have hsw' : (signW neg = 0) = (neg = false) := by cases neg <;> simp [signW]
+  cases mode
+  · -- NearestEven
+    simp only [carryOf, harr, Option.bind_eq_bind, Option.bind_some, hne, decide_false, Bool.or_false,
+      Nat.and_one_is_mod]
+    by_cases h53 : d35 = 53
+    · subst h53
+      by_cases hodd : L % 2 = 1
+      · simp [hodd]
+      · have hev : L % 2 = 0 := by omega
+        simp [hev, he, hs35, hany']
+    · have h5 : ¬ d35 - 48 = 5 := by omega
+      have hb : (d35 == 53) = false := by simpa using h53
+      simp only [hb, Bool.false_and, Bool.false_eq_true, if_false, h5, false_and]
+      by_cases hge : 5 ≤ d35 - 48
+      · have : (52 : Int) - (d35 : Int) < 0 := by omega
+        simp [this, hge]
+      · have : ¬ (52 : Int) - (d35 : Int) < 0 := by omega
+        simp [this, hge]
+  · -- Downward
+    cases neg <;> simp [carryOf, signW, hs34, hany]
+  · -- Upward
+    cases neg <;> simp [carryOf, signW, hs34, hany]
+  · -- TowardZero
+    simp [carryOf]
+  · -- NearestAway
+    have hdig : toDigit10 d35 = some (d35 - 48) := by simp [toDigit10, hd]
+    simp only [carryOf, harr, hdig, Option.bind_eq_bind, Option.bind_some, hne, if_false]
+    by_cases hge : 5 ≤ d35 - 48
+    · have : (4 : Int) - ((d35 - 48 : Nat) : Int) < 0 := by omega
+      simp [this, hge]
+    · have : ¬ (4 : Int) - ((d35 - 48 : Nat) : Int) < 0 := by omega
+      simp [this, hge]
+
+/-- the sticky unit the code passes on when the exponent is negative (`T` = the tail, `e` = the exponent) -/
+def stickyOf (mode : Mode) (neg : Bool) (e : Int) (T : Nat) : Nat :=
+  match mode with
+  | .rne => if 0 < T then 1 else 0
+  | .rna => if -34 < e ∧ 0 < T then 1 else 0
+  | .rdn => if neg = true ∧ 0 < T then 1 else 0
+  | .rup => if neg = false ∧ 0 < T then 1 else 0
+  | .rtz => 0
+
+theorem carryOf_neg (mode : Mode) (neg : Bool) (sig : Bytes) (hsig : ∀ b ∈ sig, isDigitB b = true)
+    (hn1 : 35 ≤ sig.length) (hn2 : sig.length ≤ 100) (e : Int) (he : e < 0) (L : Nat) :
+    carryOf mode (signW neg) (arrOf sig) sig.length e L = some (stickyOf mode neg e (digitsVal (sig.drop 34))) := by
+  obtain ⟨d35, t', hdrop, hdrop', hget, hd, ht', hlen⟩ := tail_shape sig hsig hn1
+  have hd' : 48 ≤ d35 ∧ d35 ≤ 57 := by simpa only [isDigitB, Bool.and_eq_true, decide_eq_true_eq] using hd
+  have harr : (arrOf sig)[34]? = some d35 := by rw [arrOf_getElem? sig 34 (by omega) hn2, hget]
+  have hs34 : slice (arrOf sig) 34 sig.length = some (d35 :: t') := by
+    rw [slice_arrOf sig 34 sig.length (by omega) (le_refl _) hn2, List.take_length, hdrop]
+  have hany : anyAboveZero (d35 :: t') = decide (0 < digitsVal (d35 :: t')) :=
+    anyAboveZero_iff _ (by intro b hb; rcases List.mem_cons.1 hb with rfl | hb; exact hd; exact ht' b hb)
+  have hsw : (signW neg ≠ 0) = (neg = true) := by cases neg <;> simp [signW]
+  have hsw' : (signW neg = 0) = (neg = false) := by cases neg <;> simp [signW]
+  have hnn : ¬ e ≥ 0 := by omega
+  rw [hdrop]
+  cases mode
+  · -- NearestEven: `i` stays 34, the carry of the digit survives only if everything is zero — and then it is 0
+    simp only [carryOf, harr, Option.bind_eq_bind, Option.bind_some, he, decide_true, Bool.or_true, if_true, hnn,
+      if_false, hs34, hany, stickyOf, decide_eq_true_eq]
+    by_cases hT : 0 < digitsVal (d35 :: t')
+    · simp [hT]
+    · have h0 : d35 = 48 := by
+        rw [digitsVal_cons] at hT
+        by_contra hne
+        have : 0 < (d35 - 48) * 10 ^ t'.length := Nat.mul_pos (by omega) (Nat.pow_pos (by decide))
+        omega
+      subst h0
+      simp [hT]
+  · cases neg <;> simp [carryOf, signW, hs34, hany, stickyOf]
+  · cases neg <;> simp [carryOf, signW, hs34, hany, stickyOf]
+  · simp [carryOf, stickyOf]
+  · have hdig : toDigit10 d35 = some (d35 - 48) := by simp [toDigit10, hd]
+    simp only [carryOf, harr, hdig, Option.bind_eq_bind, Option.bind_some, he, if_true, stickyOf]
+    by_cases h34 : -34 < e
+    · have : e > -34 := h34
+      simp [this, hs34, hany]
+    · have : ¬ e > -34 := by omega
+      simp [this]
+
+/-! ## 9. more than 34 digits: what is handed to `bid_get_BID128` -/
+
+/-- the carry / sticky unit the `match rnd_mode` produces -/
+def carrySpec (mode : Mode) (neg : Bool) (e : Int) (C34 T Y : Nat) : Nat :=
+  if 0 ≤ e then (if roundUp mode neg (C34 % 2 == 1) T Y then 1 else 0) else stickyOf mode neg e T
+
+theorem carrySpec_le (mode : Mode) (neg : Bool) (e : Int) (C34 T Y : Nat) : carrySpec mode neg e C34 T Y ≤ 1 := by
+  unfold carrySpec stickyOf
+  split_ifs <;> (try cases mode) <;> simp
+
+/-- the first 34 digits in two halves -/
+theorem split34 (sig : Bytes) (hn : 34 ≤ sig.length) :
+    digitsVal (sig.take 34) = digitsVal (sig.take 17) * 10 ^ 17 + digitsVal ((sig.take 34).drop 17) := by
+  have h := split17 (sig.take 34) (by rw [List.length_take]; omega)
+  rw [List.length_take, Nat.min_eq_left hn, List.take_take] at h
+  exact h
+
+/-- **Lines 551–641 up to the call of `bid_get_BID128`**: the coefficient handed over is the 34 digits plus the carry
+— or, when the result will be subnormal but not by 34 places or more, ten times the 34 digits plus the sticky unit, one
+exponent down —; inexact is raised beforehand iff the tail is not zero. -/
+theorem largePath_pack (mode : Mode) (neg : Bool) (sig : Bytes) (hsig : ∀ b ∈ sig, isDigitB b = true)
+    (hn1 : 35 ≤ sig.length) (hn2 : sig.length ≤ 100) (e : Int) (he1 : -2147483647 ≤ e) (he2 : e < 2147483647) :
+    ∃ c0 c1, c0 < 2 ^ 64 ∧ c1 < 2 ^ 64 ∧
+      c0 + 2 ^ 64 * c1 =
+        (if e < 0 ∧ -34 < e then
+          10 * digitsVal (sig.take 34)
+            + carrySpec mode neg e (digitsVal (sig.take 34)) (digitsVal (sig.drop 34)) (10 ^ (sig.length - 34))
+         else digitsVal (sig.take 34)
+            + carrySpec mode neg e (digitsVal (sig.take 34)) (digitsVal (sig.drop 34)) (10 ^ (sig.length - 34))) ∧
+      largePath mode (signW neg) (arrOf sig) sig.length e (anyAboveZero (sig.drop 34))
+        = pack (signW neg) (if e < 0 ∧ -34 < e then e - 1 else e) (c0, c1) mode
+            (if 0 < digitsVal (sig.drop 34) then fInexact else 0) := by
+  have hsplit := split34 sig (by omega)
+  have hH := digitsVal_lt (sig.take 17) (fun b hb => hsig b (List.mem_of_mem_take hb))
+  have hL := digitsVal_lt ((sig.take 34).drop 17)
+    (fun b hb => hsig b (List.mem_of_mem_take (List.mem_of_mem_drop hb)))
+  rw [List.length_take, Nat.min_eq_left (by omega)] at hH
+  rw [List.length_drop, List.length_take, Nat.min_eq_left (by omega)] at hL
+  have hpar : digitsVal ((sig.take 34).drop 17) % 2 = digitsVal (sig.take 34) % 2 := by
+    rw [hsplit]; have : (10 : Nat) ^ 17 = 2 * 50000000000000000 := by norm_num
+    rw [this]; omega
+  have hcarry : carryOf mode (signW neg) (arrOf sig) sig.length e (digitsVal ((sig.take 34).drop 17))
+      = some (carrySpec mode neg e (digitsVal (sig.take 34)) (digitsVal (sig.drop 34)) (10 ^ (sig.length - 34))) := by
+    unfold carrySpec
+    by_cases he : 0 ≤ e
+    · rw [if_pos he, carryOf_nonneg mode neg sig hsig hn1 hn2 e he, hpar]
+    · rw [if_neg he, carryOf_neg mode neg sig hsig hn1 hn2 e (by omega)]
+  have hcle := carrySpec_le mode neg e (digitsVal (sig.take 34)) (digitsVal (sig.drop 34)) (10 ^ (sig.length - 34))
+  have hinex : anyAboveZero (sig.drop 34) = decide (0 < digitsVal (sig.drop 34)) :=
+    anyAboveZero_iff _ (fun b hb => hsig b (List.mem_of_mem_drop hb))
+  unfold largePath
+  rw [readRun_val sig hsig hn2 0 17 (by omega) (by omega) (by omega), List.drop_zero, Option.bind_eq_bind,
+    Option.bind_some, readRun_val sig hsig hn2 17 34 (by omega) (by omega) (by omega), Option.bind_some, hcarry,
+    Option.bind_some, hinex]
+  generalize carrySpec mode neg e (digitsVal (sig.take 34)) (digitsVal (sig.drop 34)) (10 ^ (sig.length - 34)) = cy at *
+  generalize digitsVal (sig.take 17) = H at *
+  generalize digitsVal ((sig.take 34).drop 17) = L at *
+  generalize digitsVal (sig.take 34) = C34 at *
+  by_cases hsc : e < 0 ∧ -34 < e
+  · have hb : (decide (e < 0) && decide (e > -34)) = true := by simp [hsc.1, hsc.2]
+    simp only [hb, if_true, if_pos hsc, decide_eq_true_eq]
+    have hlow : AH.add64 (AH.add64 (AH.shl64 L 3) (AH.shl64 L 1)) cy = 10 * L + cy := by
+      simp only [AH.add64, AH.shl64, Nat.reduceMod, Nat.reducePow]; omega
+    rw [hlow, wrapI32_id _ (by omega) (by omega)]
+    obtain ⟨a0, a1, aval⟩ := assemble_val H 1000000000000000000 (10 * L + cy) (by omega) (by norm_num) (by omega)
+    refine ⟨_, _, a0, a1, ?_, rfl⟩
+    rw [aval, hsplit]; ring
+  · have hb : (decide (e < 0) && decide (e > -34)) = false := by
+      rw [Bool.and_eq_false_iff, decide_eq_false_iff_not, decide_eq_false_iff_not]
+      by_cases h : e < 0
+      · right; intro h'; exact hsc ⟨h, h'⟩
+      · left; exact h
+    simp only [hb, Bool.false_eq_true, if_false, if_neg hsc, decide_eq_true_eq]
+    have hlow : AH.add64 L cy = L + cy := by simp only [AH.add64]; omega
+    rw [hlow]
+    obtain ⟨a0, a1, aval⟩ := assemble_val H 100000000000000000 (L + cy) (by omega) (by norm_num) (by omega)
+    refine ⟨_, _, a0, a1, ?_, rfl⟩
+    rw [aval, hsplit]; ring
+
+/-! ## 10. more than 34 digits: the tail is zero -/
+
+theorem carrySpec_zero (mode : Mode) (neg : Bool) (e : Int) (C34 Y : Nat) : carrySpec mode neg e C34 0 Y = 0 := by
+  unfold carrySpec stickyOf roundUp
+  cases mode <;> simp
+
+theorem norm34_lt34 (C : Nat) (e : Int) (hC : C < 10 ^ 34) : norm34 C e = (C, e) := by
+  unfold norm34; rw [if_neg (by omega)]
+
+/-- `roundInt` does not change when remainder and divisor are both multiplied by ten -/
+theorem roundInt_scale10 (mode : Mode) (neg : Bool) (q r D : Nat) :
+    roundInt mode neg q (10 * r) (10 * D) = roundInt mode neg q r D :=
+  roundInt_congr mode neg q (10 * r) (10 * D) r D (by omega) (by omega) (by omega)
+
+/-- zero tail, not rescaled: the 34 digits are packed as they are -/
+theorem large_exact_plain (mode : Mode) (neg : Bool) (C : Nat) (e : Int) (c0 c1 : Nat) (hc0 : c0 < 2 ^ 64)
+    (hc1 : c1 < 2 ^ 64) (hC : c0 + 2 ^ 64 * c1 = C) (hC0 : 0 < C) (hC34 : C ≤ 10 ^ 34)
+    (he1 : -2147483648 ≤ e) (he2 : e < 2147483647) :
+    pack (signW neg) e (c0, c1) mode 0
+      = some (encode (finish mode neg C 1 (e - 6176) (e - 6176)).1, (finish mode neg C 1 (e - 6176) (e - 6176)).2) := by
+  have := pack_finish mode neg (e - 6176) c0 c1 C hc0 hc1 hC hC0 hC34 (by omega) (by omega)
+  rwa [show e - 6176 + 6176 = e by omega] at this
+
+/-- zero tail, rescaled (`−34 < e < 0`): ten times the 34 digits one exponent down round to the same subnormal, with
+the same flags, as the 34 digits at their own exponent -/
+theorem large_exact_scaled (mode : Mode) (neg : Bool) (C : Nat) (k : Nat) (c0 c1 : Nat) (hc0 : c0 < 2 ^ 64)
+    (hc1 : c1 < 2 ^ 64) (hC : c0 + 2 ^ 64 * c1 = 10 * C) (hC33 : 10 ^ 33 ≤ C) (hC34 : C < 10 ^ 34)
+    (hk1 : 1 ≤ k) (hk2 : k ≤ 33) :
+    pack (signW neg) (-(k : Int) - 1) (c0, c1) mode 0
+      = some (encode (finish mode neg C 1 (-(k : Int) - 6176) (-(k : Int) - 6176)).1,
+              (finish mode neg C 1 (-(k : Int) - 6176) (-(k : Int) - 6176)).2) := by
+  have hC0 : 0 < C := lt_of_lt_of_le (by norm_num) hC33
+  have hps := pack_scaled mode neg (k + 1) c0 c1 (10 * C) 0 hc0 hc1 hC (by omega) (by omega) (by omega) (by omega)
+  rw [show (-(((k + 1 : Nat) : Int))) = -(k : Int) - 1 by push_cast; ring] at hps
+  rw [hps]
+  have hpow : 10 ^ (k + 1) = 10 * 10 ^ k := by rw [Nat.pow_succ, Nat.mul_comm]
+  have hD : 0 < 10 ^ k := Nat.pow_pos (by decide)
+  rw [hpow, Nat.mul_div_mul_left _ _ (by norm_num : 0 < 10), Nat.mul_mod_mul_left, roundInt_scale10]
+  have hn := norm34_lt34 C (-(k : Int)) hC34
+  have h0 : (norm34 C (-(k : Int))).2 < 0 := by rw [hn]; simp; omega
+  have hk : (-(norm34 C (-(k : Int))).2).toNat = k := by rw [hn]; simp
+  by_cases hr : C % 10 ^ k = 0
+  · have hfin := finish_uf_exact mode neg C (-(k : Int)) hC0 (le_of_lt hC34) h0 (by rw [hk, hn]; exact hr)
+    rw [hk, hn] at hfin
+    rw [hfin, hr, Nat.mul_zero, roundInt_zero_rem, ufFlags_zero]
+    simp
+  · have hm : roundInt mode neg (C / 10 ^ k) (C % 10 ^ k) (10 ^ k) < 10 ^ 34 := by
+      have h1 := roundInt_le mode neg (C / 10 ^ k) (C % 10 ^ k) (10 ^ k)
+      have h10 : 10 ^ 1 ≤ 10 ^ k := Nat.pow_le_pow_right (by decide) hk1
+      have : C / 10 ^ k ≤ 10 ^ 34 / 10 ^ 1 :=
+        le_trans (Nat.div_le_div_right (le_of_lt hC34)) (Nat.div_le_div_left h10 (by norm_num))
+      have : (10 : Nat) ^ 34 / 10 ^ 1 + 1 < 10 ^ 34 := by norm_num
+      omega
+    have hfin := finish_uf_inexact mode neg C (-(k : Int)) hC0 (le_of_lt hC34) h0 (by rw [hk, hn]; exact hr) _ hm
+      (by rw [hk, hn]; exact roundInt_divmod_spec mode neg C (10 ^ k) hD)
+    rw [hfin, ufFlags_zero]
+    have : ¬ 10 * (C % 10 ^ k) = 0 := by omega
+    simp [this]
+
+/-! ## 11. more than 34 digits, non-zero tail, exponent not negative: round to 34 digits -/
+
+theorem flags_ovf : fInexact ||| (fOverflow ||| fInexact) = fOverflow ||| fInexact := by decide
+theorem flags_uf (b : Bool) : ufFlags fInexact b = fUnderflow ||| fInexact := by cases b <;> decide
+
+theorem large_inexact_nonneg (mode : Mode) (neg : Bool) (C Y T : Nat) (e pref : Int) (c0 c1 : Nat) (hc0 : c0 < 2 ^ 64)
+    (hc1 : c1 < 2 ^ 64) (hC : c0 + 2 ^ 64 * c1 = C + carrySpec mode neg e C T Y) (hC33 : 10 ^ 33 ≤ C)
+    (hC34 : C < 10 ^ 34) (hT0 : 0 < T) (hT : T < Y) (he0 : 0 ≤ e) (he2 : e < 2147483646) :
+    pack (signW neg) e (c0, c1) mode fInexact
+      = some (encode (finish mode neg (C * Y + T) Y (e - 6176) pref).1,
+              (finish mode neg (C * Y + T) Y (e - 6176) pref).2) := by
+  have hM : C + carrySpec mode neg e C T Y = roundInt mode neg C T Y := by
+    unfold carrySpec roundInt
+    rw [if_pos he0]
+    split_ifs <;> rfl
+  rw [hM] at hC
+  have hMle : roundInt mode neg C T Y ≤ 10 ^ 34 := by
+    have := roundInt_le mode neg C T Y; omega
+  have hMge : 10 ^ 33 ≤ roundInt mode neg C T Y := le_trans hC33 (le_roundInt mode neg C T Y)
+  by_cases hcar : roundInt mode neg C T Y = 10 ^ 34
+  · have hn : norm34 (roundInt mode neg C T Y) e = (10 ^ 33, e + 1) := by unfold norm34; rw [if_pos hcar]
+    by_cases hin : e + 1 ≤ 12287
+    · rw [pack_inrange mode neg e c0 c1 _ fInexact hc0 hc1 hC hMle (by rw [hn]; simp; omega) (by rw [hn]; exact hin),
+        finish_frac_carry mode neg C Y T (e - 6176) pref hC33 hT0 hT (by unfold eMin; omega) (by unfold eMax; omega) hcar,
+        hn]
+      simp only [show e + 1 - 6176 = e - 6176 + 1 by ring]
+    · rw [pack_ovf mode neg e c0 c1 _ fInexact hc0 hc1 hC hMge hMle (by omega) (by omega) (by rw [hn]; simp; omega),
+        finish_frac_ovf mode neg C Y T (e - 6176) pref hC33 hT0 hT (by
+          unfold eMax
+          by_cases h : e = 12287
+          · right; exact ⟨by omega, hcar⟩
+          · left; omega), flags_ovf]
+  · have hlt : roundInt mode neg C T Y < 10 ^ 34 := by omega
+    have hn : norm34 (roundInt mode neg C T Y) e = (roundInt mode neg C T Y, e) := norm34_lt34 _ e hlt
+    by_cases hin : e ≤ 12287
+    · rw [pack_inrange mode neg e c0 c1 _ fInexact hc0 hc1 hC hMle (by rw [hn]; exact he0) (by rw [hn]; exact hin),
+        finish_frac_normal mode neg C Y T (e - 6176) pref hC33 hT0 hT (by unfold eMin; omega) (by unfold eMax; omega) hlt,
+        hn]
+    · rw [pack_ovf mode neg e c0 c1 _ fInexact hc0 hc1 hC hMge hMle (by omega) (by omega) (by rw [hn]; simp; omega),
+        finish_frac_ovf mode neg C Y T (e - 6176) pref hC33 hT0 hT (by left; unfold eMax; omega), flags_ovf]
+
+/-! ## 12. more than 34 digits, non-zero tail, `−34 < e < 0`: the sticky digit -/
+
+/-- the tail never makes the value a multiple of the rounding unit -/
+theorem frac_not_dvd (C Y T k : Nat) (hT0 : 0 < T) (hT : T < Y) : (C * Y + T) % (Y * 10 ^ k) ≠ 0 := by
+  intro h
+  have h1 : (C * Y + T) % Y = 0 := by
+    have := Nat.mod_mul_right_mod (C * Y + T) Y (10 ^ k)
+    rw [h] at this; simpa using this.symm
+  rw [Nat.mul_comm, Nat.mul_add_mod, Nat.mod_eq_of_lt hT] at h1
+  omega
+
+/-- truncation of the 34 digits is the truncation of the whole number -/
+theorem floor_frac (C Y T k : Nat) (hT : T < Y) :
+    C / 10 ^ k * (Y * 10 ^ k) ≤ C * Y + T ∧ C * Y + T < C / 10 ^ k * (Y * 10 ^ k) + Y * 10 ^ k := by
+  have hD : 0 < 10 ^ k := Nat.pow_pos (by decide)
+  have hdm := Nat.div_add_mod C (10 ^ k)
+  have hr := Nat.mod_lt C hD
+  generalize C / 10 ^ k = q at *
+  generalize C % 10 ^ k = r at *
+  generalize 10 ^ k = P at *
+  subst hdm
+  constructor
+  · nlinarith
+  · have : (r + 1) * Y ≤ P * Y := Nat.mul_le_mul_right Y hr
+    nlinarith
+
+theorem large_inexact_scaled (mode : Mode) (neg : Bool) (C Y T k : Nat) (pref : Int) (c0 c1 : Nat) (hc0 : c0 < 2 ^ 64)
+    (hc1 : c1 < 2 ^ 64) (hC : c0 + 2 ^ 64 * c1 = 10 * C + stickyOf mode neg (-(k : Int)) T) (hC33 : 10 ^ 33 ≤ C)
+    (hC34 : C < 10 ^ 34) (hT0 : 0 < T) (hT : T < Y) (hk1 : 1 ≤ k) (hk2 : k ≤ 33) :
+    pack (signW neg) (-(k : Int) - 1) (c0, c1) mode fInexact
+      = some (encode (finish mode neg (C * Y + T) Y (-(k : Int) - 6176) pref).1,
+              (finish mode neg (C * Y + T) Y (-(k : Int) - 6176) pref).2) := by
+  have hY : 0 < Y := by omega
+  have hsle : stickyOf mode neg (-(k : Int)) T ≤ 1 := by
+    unfold stickyOf; cases mode <;> simp <;> split_ifs <;> omega
+  have hps := pack_scaled mode neg (k + 1) c0 c1 _ fInexact hc0 hc1 hC (by omega) (by omega) (by omega) (by omega)
+  rw [show (-(((k + 1 : Nat) : Int))) = -(k : Int) - 1 by push_cast; ring] at hps
+  rw [hps, flags_uf]
+  -- the rounded coefficient is the correct rounding of the whole number
+  have hm : roundInt mode neg ((10 * C + stickyOf mode neg (-(k : Int)) T) / 10 ^ (k + 1))
+      ((10 * C + stickyOf mode neg (-(k : Int)) T) % 10 ^ (k + 1)) (10 ^ (k + 1)) < 10 ^ 34 := by
+    have h1' := roundInt_le mode neg ((10 * C + stickyOf mode neg (-(k : Int)) T) / 10 ^ (k + 1))
+      ((10 * C + stickyOf mode neg (-(k : Int)) T) % 10 ^ (k + 1)) (10 ^ (k + 1))
+    have h10 : 10 ^ 2 ≤ 10 ^ (k + 1) := Nat.pow_le_pow_right (by decide) (by omega)
+    have : (10 * C + stickyOf mode neg (-(k : Int)) T) / 10 ^ (k + 1) ≤ 10 ^ 35 / 10 ^ 2 :=
+      le_trans (Nat.div_le_div_right (by omega)) (Nat.div_le_div_left h10 (by norm_num))
+    have : (10 : Nat) ^ 35 / 10 ^ 2 + 1 < 10 ^ 34 := by norm_num
+    omega
+  have hround : RoundedInt mode neg (C * Y + T) (Y * 10 ^ k)
+      (roundInt mode neg ((10 * C + stickyOf mode neg (-(k : Int)) T) / 10 ^ (k + 1))
+        ((10 * C + stickyOf mode neg (-(k : Int)) T) % 10 ^ (k + 1)) (10 ^ (k + 1))) := by
+    by_cases hs : stickyOf mode neg (-(k : Int)) T = 1
+    · rw [hs]; exact sticky_rounded mode neg C Y T k hk1 hT0 hT
+    · have hs0 : stickyOf mode neg (-(k : Int)) T = 0 := by omega
+      rw [hs0, Nat.add_zero]
+      have hpow : 10 ^ (k + 1) = 10 * 10 ^ k := by rw [Nat.pow_succ, Nat.mul_comm]
+      rw [hpow, Nat.mul_div_mul_left _ _ (by norm_num : 0 < 10), Nat.mul_mod_mul_left, roundInt_scale10]
+      have hfl := floor_frac C Y T k hT
+      have h34 : -34 < -(k : Int) := by omega
+      -- no sticky unit although the tail is not zero: the mode truncates
+      cases mode <;> cases neg <;> simp [stickyOf, hT0, h34] at hs0 <;>
+        simp only [roundInt, roundUp, RoundedInt, Bool.not_true, Bool.false_eq_true, if_false, if_true,
+          ite_self] <;> exact hfl
+  have hfin := finish_tiny_inexact mode neg (C * Y + T) Y k pref (by omega) hY (frac_not_dvd C Y T k hT0 hT) (by
+      have h10 : 10 ^ 34 ≤ 10 ^ (k + 33) := Nat.pow_le_pow_right (by decide) (by omega)
+      calc C * Y + T < (C + 1) * Y := by rw [Nat.add_mul, Nat.one_mul]; omega
+        _ ≤ 10 ^ 34 * Y := Nat.mul_le_mul_right _ (by omega)
+        _ ≤ 10 ^ (k + 33) * Y := Nat.mul_le_mul_right _ h10
+        _ = Y * 10 ^ (k + 33) := Nat.mul_comm _ _) _ hm hround
+  rw [show eMin - (k : Int) = -(k : Int) - 6176 by unfold eMin; ring] at hfin
+  rw [hfin]
+
+/-! ## 13. more than 34 digits, non-zero tail, `e ≤ −34`: the 34 digits alone (plus a unit where that is harmless) -/
+
+/-- a value below the rounding unit rounds to 0 or 1: `roundInt` with quotient 0 -/
+theorem roundInt_lt (mode : Mode) (neg : Bool) (V D : Nat) (h : V < D) :
+    roundInt mode neg (V / D) (V % D) D = if roundUp mode neg false V D then 1 else 0 := by
+  rw [Nat.div_eq_of_lt h, Nat.mod_eq_of_lt h]
+  unfold roundInt
+  simp
+
+/-- the sticky unit at 34 or more places below the least quantum (non-zero tail) -/
+def deepS (mode : Mode) (neg : Bool) : Nat :=
+  match mode with
+  | .rne => 1 | .rna => 0 | .rdn => if neg then 1 else 0 | .rup => if neg then 0 else 1 | .rtz => 0
+
+theorem stickyOf_deep (mode : Mode) (neg : Bool) (e : Int) (T : Nat) (he : ¬ -34 < e) (hT0 : 0 < T) :
+    stickyOf mode neg e T = deepS mode neg := by
+  cases mode <;> cases neg <;> simp [stickyOf, deepS, he, hT0]
+
+theorem deepS_le (mode : Mode) (neg : Bool) : deepS mode neg ≤ 1 := by
+  cases mode <;> cases neg <;> simp [deepS]
+
+theorem pureA34 (mode : Mode) (neg : Bool) (u Y T D : Nat) (hs : deepS mode neg = 1) (hT0 : 0 < T) (hT : T < Y)
+    (hD : D = 10 ^ 34 * Y) (hu : u + Y = 10 ^ 34 * Y) : roundUp mode neg false (u + T) D = true := by
+  cases mode <;> cases neg <;> simp [deepS] at hs <;> simp [roundUp] <;> omega
+
+theorem pureA35 (mode : Mode) (neg : Bool) (u Y T D P : Nat) (hT0 : 0 < T) (hT : T < Y)
+    (hD : 10 ^ 35 * Y ≤ D) (hu : u + Y ≤ 10 ^ 34 * Y) (hP : 10 ^ 34 ≤ P) :
+    roundUp mode neg false (10 ^ 33) P = roundUp mode neg false (u + T) D := by
+  cases mode <;> cases neg <;> simp [roundUp] <;>
+    first | omega | (rw [Bool.eq_iff_iff]; simp <;> omega)
+
+theorem pureB34 (mode : Mode) (neg : Bool) (C u Y T D : Nat) (hT0 : 0 < T) (hT : T < Y)
+    (hD : D = 10 ^ 34 * Y) (hC33 : 10 ^ 33 ≤ C) (hlo : 5 * 10 ^ 33 ≤ C → 5 * 10 ^ 33 * Y ≤ u)
+    (hhi : C + 1 ≤ 5 * 10 ^ 33 → u + Y ≤ 5 * 10 ^ 33 * Y)
+    (hlt : C + deepS mode neg < 10 ^ 34) :
+    roundUp mode neg false (C + deepS mode neg) (10 ^ 34) = roundUp mode neg false (u + T) D := by
+  by_cases h5 : 5 * 10 ^ 33 ≤ C
+  · have := hlo h5
+    cases mode <;> cases neg <;> simp [deepS, roundUp] at hlt ⊢ <;>
+      first | omega | (rw [Bool.eq_iff_iff]; simp <;> omega)
+  · have := hhi (by omega)
+    cases mode <;> cases neg <;> simp [deepS, roundUp] at hlt ⊢ <;>
+      first | omega | (rw [Bool.eq_iff_iff]; simp <;> omega)
+
+theorem pureB35 (mode : Mode) (neg : Bool) (C u Y T D P : Nat) (hT0 : 0 < T) (hT : T < Y)
+    (hD : 10 ^ 35 * Y ≤ D) (hC33 : 10 ^ 33 ≤ C) (hu2 : u + Y ≤ 10 ^ 34 * Y) (hP : 10 ^ 35 ≤ P)
+    (hlt : C + deepS mode neg < 10 ^ 34) :
+    roundUp mode neg false (C + deepS mode neg) P = roundUp mode neg false (u + T) D := by
+  cases mode <;> cases neg <;> simp [deepS, roundUp] at hlt ⊢ <;>
+    first | omega | (rw [Bool.eq_iff_iff]; simp <;> omega)
+
+/-- **34 or more places below the least quantum.**  What the code hands to `bid_get_BID128` — the 34 digits, plus one
+under NearestEven and in the directed mode that rounds away — rounds to the same 0 or 1 as the whole number does.
+(Adding the unit under NearestAway would not: `4999…9 + 1` is an exact tie at `k = 34`; that was D17.) -/
+theorem deep_rounding (mode : Mode) (neg : Bool) (C Y T k : Nat) (hC33 : 10 ^ 33 ≤ C) (hC34 : C < 10 ^ 34)
+    (hT0 : 0 < T) (hT : T < Y) (hk : 34 ≤ k) :
+    roundInt mode neg
+        ((norm34 (C + deepS mode neg) (-(k : Int))).1 / 10 ^ (-(norm34 (C + deepS mode neg) (-(k : Int))).2).toNat)
+        ((norm34 (C + deepS mode neg) (-(k : Int))).1 % 10 ^ (-(norm34 (C + deepS mode neg) (-(k : Int))).2).toNat)
+        (10 ^ (-(norm34 (C + deepS mode neg) (-(k : Int))).2).toNat)
+      = roundInt mode neg ((C * Y + T) / (Y * 10 ^ k)) ((C * Y + T) % (Y * 10 ^ k)) (Y * 10 ^ k) := by
+  have hP34 : 10 ^ 34 ≤ 10 ^ k := Nat.pow_le_pow_right (by decide) hk
+  have hu2 : C * Y + Y ≤ 10 ^ 34 * Y := by
+    have : (C + 1) * Y ≤ 10 ^ 34 * Y := Nat.mul_le_mul_right Y (by omega)
+    rwa [Nat.add_mul, Nat.one_mul] at this
+  have hlo : 5 * 10 ^ 33 ≤ C → 5 * 10 ^ 33 * Y ≤ C * Y := fun h => Nat.mul_le_mul_right Y h
+  have hhi : C + 1 ≤ 5 * 10 ^ 33 → C * Y + Y ≤ 5 * 10 ^ 33 * Y := fun h => by
+    have : (C + 1) * Y ≤ 5 * 10 ^ 33 * Y := Nat.mul_le_mul_right Y h
+    rwa [Nat.add_mul, Nat.one_mul] at this
+  have hD1 : 10 ^ 34 * Y ≤ Y * 10 ^ k := by rw [Nat.mul_comm]; exact Nat.mul_le_mul_left Y hP34
+  have hVD : C * Y + T < Y * 10 ^ k := by omega
+  rw [roundInt_lt mode neg _ _ hVD]
+  by_cases hcar : C + deepS mode neg = 10 ^ 34
+  · -- the unit carries to 10^34: the coefficient becomes 10^33, one exponent up
+    have hn : norm34 (C + deepS mode neg) (-(k : Int)) = (10 ^ 33, -(k : Int) + 1) := by
+      unfold norm34; rw [if_pos hcar]
+    rw [hn]
+    simp only [show (-(-(k : Int) + 1)).toNat = k - 1 by omega]
+    have hs1 : deepS mode neg = 1 := by have := deepS_le mode neg; omega
+    have hu5 : C * Y + Y = 10 ^ 34 * Y := by
+      have : (C + 1) * Y = 10 ^ 34 * Y := by rw [← hcar, hs1]
+      rwa [Nat.add_mul, Nat.one_mul] at this
+    by_cases hk34 : k = 34
+    · subst hk34
+      have e1 : (10 : Nat) ^ 33 / 10 ^ (34 - 1) = 1 := by norm_num
+      have e2 : (10 : Nat) ^ 33 % 10 ^ (34 - 1) = 0 := by norm_num
+      rw [e1, e2, roundInt_zero_rem,
+        pureA34 mode neg (C * Y) Y T (Y * 10 ^ 34) hs1 hT0 hT (Nat.mul_comm _ _) hu5]
+      rfl
+    · have hPk : 10 ^ 34 ≤ 10 ^ (k - 1) := Nat.pow_le_pow_right (by decide) (by omega)
+      have hD3 : 10 ^ 35 * Y ≤ Y * 10 ^ k := by
+        rw [Nat.mul_comm]; exact Nat.mul_le_mul_left Y (Nat.pow_le_pow_right (by decide) (by omega))
+      rw [roundInt_lt mode neg _ _ (lt_of_lt_of_le (by norm_num) hPk),
+        pureA35 mode neg (C * Y) Y T (Y * 10 ^ k) (10 ^ (k - 1)) hT0 hT hD3 hu2 hPk]
+  · have hslt : C + deepS mode neg < 10 ^ 34 := by have := deepS_le mode neg; omega
+    rw [norm34_lt34 _ _ hslt]
+    simp only [Int.neg_neg, Int.toNat_natCast]
+    rw [roundInt_lt mode neg _ _ (lt_of_lt_of_le hslt hP34)]
+    by_cases hk34 : k = 34
+    · subst hk34
+      rw [pureB34 mode neg C (C * Y) Y T (Y * 10 ^ 34) hT0 hT (Nat.mul_comm _ _) hC33 hlo hhi hslt]
+    · have hD3 : 10 ^ 35 * Y ≤ Y * 10 ^ k := by
+        rw [Nat.mul_comm]; exact Nat.mul_le_mul_left Y (Nat.pow_le_pow_right (by decide) (by omega))
+      rw [pureB35 mode neg C (C * Y) Y T (Y * 10 ^ k) (10 ^ k) hT0 hT hD3 hC33 hu2
+        (Nat.pow_le_pow_right (by decide) (by omega)) hslt]
+
+theorem large_inexact_deep (mode : Mode) (neg : Bool) (C Y T k : Nat) (pref : Int) (c0 c1 : Nat) (hc0 : c0 < 2 ^ 64)
+    (hc1 : c1 < 2 ^ 64) (hC : c0 + 2 ^ 64 * c1 = C + stickyOf mode neg (-(k : Int)) T) (hC33 : 10 ^ 33 ≤ C)
+    (hC34 : C < 10 ^ 34) (hT0 : 0 < T) (hT : T < Y) (hk1 : 34 ≤ k) (hk2 : k ≤ 2147483647) :
+    pack (signW neg) (-(k : Int)) (c0, c1) mode fInexact
+      = some (encode (finish mode neg (C * Y + T) Y (-(k : Int) - 6176) pref).1,
+              (finish mode neg (C * Y + T) Y (-(k : Int) - 6176) pref).2) := by
+  have hY : 0 < Y := by omega
+  rw [stickyOf_deep mode neg _ T (by omega) hT0] at hC
+  have hsle := deepS_le mode neg
+  have hneg : (norm34 (C + deepS mode neg) (-(k : Int))).2 < 0 := by
+    unfold norm34; split_ifs <;> simp <;> omega
+  obtain ⟨m, hp, hround, hm⟩ := pack_uf mode neg (-(k : Int)) c0 c1 _ fInexact hc0 hc1 hC (by omega) (by omega)
+    (by omega) (by omega) hneg
+  rw [hp, flags_uf]
+  have hD : 0 < 10 ^ (-(norm34 (C + deepS mode neg) (-(k : Int))).2).toNat := Nat.pow_pos (by decide)
+  have hmeq := RoundedInt_unique mode neg _ _ _ _ hD hround (roundInt_divmod_spec mode neg _ _ hD)
+  rw [deep_rounding mode neg C Y T k hC33 hC34 hT0 hT hk1] at hmeq
+  have hDD : 0 < Y * 10 ^ k := Nat.mul_pos hY (Nat.pow_pos (by decide))
+  have hround' : RoundedInt mode neg (C * Y + T) (Y * 10 ^ k) m := by
+    rw [hmeq]; exact roundInt_divmod_spec mode neg _ _ hDD
+  have hfin := finish_tiny_inexact mode neg (C * Y + T) Y k pref (by omega) hY (frac_not_dvd C Y T k hT0 hT) (by
+      have h10 : 10 ^ 34 ≤ 10 ^ (k + 33) := Nat.pow_le_pow_right (by decide) (by omega)
+      calc C * Y + T < (C + 1) * Y := by rw [Nat.add_mul, Nat.one_mul]; omega
+        _ ≤ 10 ^ 34 * Y := Nat.mul_le_mul_right _ (by omega)
+        _ ≤ 10 ^ (k + 33) * Y := Nat.mul_le_mul_right _ h10
+        _ = Y * 10 ^ (k + 33) := Nat.mul_comm _ _) m hm hround'
+  rw [show eMin - (k : Int) = -(k : Int) - 6176 by unfold eMin; ring] at hfin
+  rw [hfin]
+
+/-! ## 14. more than 34 digits: the theorem -/
+
+/-- the value of the literal, written on its first 34 digits -/
+theorem val_transfer (N C Y T j : Nat) (E : Int) (hN : N = C * Y + T) (hY : Y = 10 ^ j) :
+    ((N : Nat) : ℚ) / ((1 : Nat) : ℚ) * (10 : ℚ) ^ E
+      = ((C * Y + T : Nat) : ℚ) / ((Y : Nat) : ℚ) * (10 : ℚ) ^ (E + (j : Int)) := by
+  subst hN hY
+  rw [zpow_add₀ ten_ne, zpow_natCast, Nat.cast_one, div_one]
+  have : ((10 ^ j : Nat) : ℚ) = (10 : ℚ) ^ j := by push_cast; rfl
+  rw [this]
+  have hp : (10 : ℚ) ^ j ≠ 0 := by positivity
+  field_simp
+
+/-- **More than 34 digits** (lines 551–643), at most 100: the 34 leading digits are rounded by the tail in the given
+mode (with the carry to `10^34`), or — when the result will be subnormal — handed to the packing routine with a sticky
+digit so that the value is rounded once; the result is the canonical encoding of the literal's `finish` value, with
+exactly its flags. -/
+theorem largePath_correct (mode : Mode) (neg : Bool) (sig : Bytes) (E : Int)
+    (hsig : ∀ b ∈ sig, isDigitB b = true) (hhead : sig.head? ≠ some 48) (hn1 : 35 ≤ sig.length)
+    (hn2 : sig.length ≤ 100) (hE1 : -2147480000 ≤ E) (hE2 : E ≤ 2147470000) :
+    largePath mode (signW neg) (arrOf sig) sig.length (E + ((sig.length - 34 : Nat) : Int) + 6176)
+        (anyAboveZero (sig.drop 34))
+      = some (encode (finish mode neg (digitsVal sig) 1 E E).1, (finish mode neg (digitsVal sig) 1 E E).2) := by
+  -- the number in two parts
+  have hN : digitsVal sig = digitsVal (sig.take 34) * 10 ^ (sig.length - 34) + digitsVal (sig.drop 34) := by
+    have := digitsVal_append (sig.take 34) (sig.drop 34)
+    rw [List.take_append_drop, List.length_drop] at this
+    exact this
+  have hC34 := digitsVal_lt (sig.take 34) (fun b hb => hsig b (List.mem_of_mem_take hb))
+  have hT := digitsVal_lt (sig.drop 34) (fun b hb => hsig b (List.mem_of_mem_drop hb))
+  rw [List.length_take, Nat.min_eq_left (by omega)] at hC34
+  rw [List.length_drop] at hT
+  have hC33 : 10 ^ 33 ≤ digitsVal (sig.take 34) := by
+    have hne : sig.take 34 ≠ [] := by
+      intro h
+      have h2 : (sig.take 34).length = 34 := by rw [List.length_take]; omega
+      rw [h] at h2; simp at h2
+    have hh : (sig.take 34).head? ≠ some 48 := by
+      rw [List.head?_take]; simpa using hhead
+    have := digitsVal_pos (sig.take 34) (fun b hb => hsig b (List.mem_of_mem_take hb)) hne hh
+    rwa [List.length_take, Nat.min_eq_left (by omega)] at this
+  obtain ⟨c0, c1, hc0, hc1, hC, hlp⟩ := largePath_pack mode neg sig hsig hn1 hn2
+    (E + ((sig.length - 34 : Nat) : Int) + 6176) (by omega) (by omega)
+  rw [hlp]
+  have hval := val_transfer (digitsVal sig) (digitsVal (sig.take 34)) (10 ^ (sig.length - 34))
+    (digitsVal (sig.drop 34)) (sig.length - 34) E hN rfl
+  generalize hj : sig.length - 34 = j at *
+  generalize digitsVal (sig.take 34) = C at *
+  generalize digitsVal (sig.drop 34) = T at *
+  generalize digitsVal sig = N at *
+  have hY : 0 < 10 ^ j := Nat.pow_pos (by decide)
+  have hC0 : 0 < C := lt_of_lt_of_le (by norm_num) hC33
+  have hN0 : 0 < N := by rw [hN]; exact lt_of_lt_of_le (Nat.mul_pos hC0 hY) (Nat.le_add_right _ _)
+  have hx : E + (j : Int) + 6176 - 6176 = E + (j : Int) := by ring
+  by_cases hT0 : T = 0
+  · -- the tail is zero: an exact 34-digit number
+    subst hT0
+    rw [carrySpec_zero, Nat.add_zero, Nat.add_zero] at hC
+    rw [if_neg (show ¬ (0 : Nat) < 0 by omega)]
+    have hfin : finish mode neg N 1 E E = finish mode neg C 1 (E + (j : Int)) (E + (j : Int)) := by
+      rw [← finish_pref_34 mode neg C (E + (j : Int)) E hC33 (by omega)]
+      apply finish_congr_val mode neg N 1 C 1 E (E + (j : Int)) E hN0 (by norm_num) hC0 (by norm_num)
+      rw [hval, Nat.add_zero, Nat.cast_mul, Nat.cast_one, div_one]
+      have : ((10 ^ j : Nat) : ℚ) ≠ 0 := by positivity
+      field_simp
+    rw [hfin]
+    by_cases hsc : E + (j : Int) + 6176 < 0 ∧ -34 < E + (j : Int) + 6176
+    · rw [if_pos hsc] at hC ⊢
+      obtain ⟨k, hk⟩ : ∃ k : Nat, E + (j : Int) + 6176 = -(k : Int) := ⟨(-(E + (j : Int) + 6176)).toNat, by omega⟩
+      have := large_exact_scaled mode neg C k c0 c1 hc0 hc1 hC hC33 hC34 (by omega) (by omega)
+      rw [hk, this, show -(k : Int) - 6176 = E + (j : Int) by omega]
+    · rw [if_neg hsc] at hC ⊢
+      have := large_exact_plain mode neg C (E + (j : Int) + 6176) c0 c1 hc0 hc1 hC hC0 (le_of_lt hC34)
+        (by omega) (by omega)
+      rw [this, hx]
+  · -- a non-zero tail
+    have hTpos : 0 < T := by omega
+    rw [if_pos hTpos]
+    have hfin : finish mode neg N 1 E E = finish mode neg (C * 10 ^ j + T) (10 ^ j) (E + (j : Int)) E :=
+      finish_congr_val mode neg N 1 (C * 10 ^ j + T) (10 ^ j) E (E + (j : Int)) E hN0 (by norm_num) (by omega) hY hval
+    rw [hfin]
+    by_cases he0 : 0 ≤ E + (j : Int) + 6176
+    · rw [if_neg (by omega)] at hC ⊢
+      have := large_inexact_nonneg mode neg C (10 ^ j) T (E + (j : Int) + 6176) E c0 c1 hc0 hc1 hC hC33 hC34 hTpos hT
+        he0 (by omega)
+      rw [this, hx]
+    · obtain ⟨k, hk⟩ : ∃ k : Nat, E + (j : Int) + 6176 = -(k : Int) := ⟨(-(E + (j : Int) + 6176)).toNat, by omega⟩
+      have hcs : carrySpec mode neg (E + (j : Int) + 6176) C T (10 ^ j) = stickyOf mode neg (-(k : Int)) T := by
+        unfold carrySpec; rw [if_neg he0, hk]
+      rw [hcs] at hC
+      by_cases hsc : E + (j : Int) + 6176 < 0 ∧ -34 < E + (j : Int) + 6176
+      · rw [if_pos hsc] at hC ⊢
+        have := large_inexact_scaled mode neg C (10 ^ j) T k E c0 c1 hc0 hc1 hC hC33 hC34 hTpos hT (by omega) (by omega)
+        rw [hk, this, show -(k : Int) - 6176 = E + (j : Int) by omega]
+      · rw [if_neg hsc] at hC ⊢
+        have := large_inexact_deep mode neg C (10 ^ j) T k E c0 c1 hc0 hc1 hC hC33 hC34 hTpos hT (by omega) (by omega)
+        rw [hk, this, show -(k : Int) - 6176 = E + (j : Int) by omega]
+
+/-! ## 15. the numeric phase on what the scanner hands over for a well-formed literal -/
+
+theorem drop_length_takeWhile (p : Nat → Bool) (l : Bytes) : l.drop (l.takeWhile p).length = l.dropWhile p := by
+  induction l with
+  | nil => rfl
+  | cons a t ih =>
+    rw [List.takeWhile_cons, List.dropWhile_cons]
+    split
+    · simpa using ih
+    · rfl
+
+/-- the literal the scanner hands over (`scan_agrees_strict`): leading zeros of the integer part dropped -/
+def handedOver (l : Literal) : Literal := { l with intDigits := l.intDigits.dropWhile (· == 48) }
+
+/-- the stored digits of the handed-over literal are the significant digits of the literal -/
+theorem bufOf_handedOver (l : Literal) : bufOf (handedOver l) = l.sigDigits := by
+  unfold bufOf rrlzOf handedOver Literal.sigDigits
+  simp only
+  rw [List.dropWhile_append]
+  by_cases h : (l.intDigits.dropWhile (· == 48)).isEmpty = true
+  · rw [if_pos h, if_pos h, drop_length_takeWhile]
+    have : l.intDigits.dropWhile (· == 48) = [] := by simpa using h
+    rw [this, List.nil_append]
+  · rw [if_neg h, if_neg h, List.drop_zero]
+
+/-- **The numeric phase is correct on every well-formed literal of at most 100 significant digits**: given what the
+scanner hands over for it, lines 506–643 return the canonical encoding of `parseLiteralSpec` with exactly its flags. -/
+theorem numericPhase_correct (mode : Mode) (l : Literal) (hip : ∀ b ∈ l.intDigits, isDigitB b = true)
+    (hfp : ∀ b ∈ l.fracDigits, isDigitB b = true) (hd : l.sigDigits.length ≤ 100)
+    (he : l.exp.natAbs < 1000000) (hf : l.fracDigits.length < 1000000000) :
+    numericPhase mode (handedOver l) false
+      = some (encode (parseLiteralSpec mode l).1, (parseLiteralSpec mode l).2) := by
+  have hbuf := bufOf_handedOver l
+  have hsigd : ∀ b ∈ l.sigDigits, isDigitB b = true := by
+    intro b hb
+    have : b ∈ l.intDigits ++ l.fracDigits := List.Sublist.mem hb (List.dropWhile_sublist _)
+    rcases List.mem_append.1 this with h | h
+    · exact hip b h
+    · exact hfp b h
+  have hhead : l.sigDigits.head? ≠ some 48 := C04Scan.dropZeros_head _
+  have hval : digitsVal l.sigDigits = l.coeff := by
+    unfold Literal.sigDigits Literal.coeff; exact digitsVal_dropZeros _
+  have hspec : parseLiteralSpec mode l = specOf mode l.neg l.coeff l.exp10 := rfl
+  have hsw : (if (handedOver l).neg = true then 0x8000000000000000 else 0) = signW l.neg := rfl
+  unfold numericPhase
+  simp only [hbuf, hsw]
+  by_cases h34 : l.sigDigits.length ≤ 34
+  · rw [if_pos h34]
+    have hexp : wrapI32 ((handedOver l).exp + 6176 - ((handedOver l).fracDigits.length : Int)) = l.exp10 + 6176 := by
+      unfold Literal.exp10 handedOver
+      simp only
+      rw [wrapI32_id _ (by omega) (by omega)]; ring
+    rw [hexp, smallPath_correct mode l.neg l.sigDigits l.exp10 hsigd hhead h34
+      (by unfold Literal.exp10; omega) (by unfold Literal.exp10; omega), hval, hspec]
+  · rw [if_neg h34]
+    -- the number of stored digits and the exponent of the 34 leading ones
+    have hz : rrlzOf (handedOver l) ≤ l.fracDigits.length := by
+      unfold rrlzOf handedOver; simp only
+      split
+      · exact List.Sublist.length_le (List.takeWhile_sublist _)
+      · omega
+    have hlen : l.sigDigits.length
+        = (l.intDigits.dropWhile (· == 48)).length + (l.fracDigits.length - rrlzOf (handedOver l)) := by
+      rw [← hbuf]; unfold bufOf; rw [List.length_append, List.length_drop]; rfl
+    have hipl : (l.intDigits.dropWhile (· == 48)).length ≤ 100 := by omega
+    have hexp : wrapI32 ((handedOver l).exp + ((handedOver l).intDigits.length : Int) + 6176 - 34
+          - (rrlzOf (handedOver l) : Int))
+        = l.exp10 + ((l.sigDigits.length - 34 : Nat) : Int) + 6176 := by
+      have h1 : (handedOver l).exp = l.exp := rfl
+      have h2 : (handedOver l).intDigits = l.intDigits.dropWhile (· == 48) := rfl
+      rw [h1, h2, wrapI32_id _ (by omega) (by omega)]
+      unfold Literal.exp10
+      omega
+    have hpos : 0 < l.coeff := by
+      rw [← hval]
+      exact lt_of_lt_of_le (Nat.pow_pos (by decide))
+        (digitsVal_pos l.sigDigits hsigd (by intro h; rw [h] at h34; simp at h34) hhead)
+    have hspec' : parseLiteralSpec mode l = finish mode l.neg l.coeff 1 l.exp10 l.exp10 := by
+      rw [hspec]; unfold specOf; rw [if_neg (by omega)]
+    rw [hexp, Nat.min_eq_left hd, Bool.false_or,
+      largePath_correct mode l.neg l.sigDigits l.exp10 hsigd hhead (by omega) hd
+        (by unfold Literal.exp10; omega) (by unfold Literal.exp10; omega), hval, hspec']
+
+/-! ## 16. the whole conversion -/
+
+/-- the early-return zero of the scanner is the zero `parseLiteralSpec` asks for -/
+theorem early_zero_bits (neg : Bool) (e10 : Int) (h : e10 ≤ 6111) :
+    signBit neg + (6176 + max e10 (-6176)).toNat * 2 ^ 113 = encode (zeroAt neg e10) := by
+  have hcl : clampInt eMin eMax e10 = max e10 (-6176) := by
+    unfold clampInt eMin eMax; split_ifs <;> omega
+  have henc : ∀ x : Int, encode (.fin neg 0 x) = signBit neg + (x + 6176).toNat * 2 ^ 113 + 0 := fun _ => rfl
+  unfold zeroAt
+  rw [hcl, henc, Nat.add_zero, show (6176 : Int) + max e10 (-6176) = max e10 (-6176) + 6176 by ring]
+
+/-- `fromStringCP` once the scanner's outcome is known -/
+theorem fromStringCP_zero (mode : Mode) (cps : List Nat) (neg : Bool) (e : Int) (h : scanCP cps = .zero neg e) :
+    ScanNum.fromStringCP mode cps = some (signBit neg + (6176 + e).toNat * 2 ^ 113, 0) := by
+  unfold ScanNum.fromStringCP; rw [h]
+
+theorem fromStringCP_number (mode : Mode) (cps : List Nat) (l : Literal) (st : Bool)
+    (h : scanCP cps = .number l st) : ScanNum.fromStringCP mode cps = numericPhase mode l st := by
+  unfold ScanNum.fromStringCP; rw [h]
+
+open C04Grammar C04Scan in
+/-- a literal text without exponent letter has exponent 0 -/
+theorem exp_zero_of_no_letter (s : List Char) (l : Literal) (h : parseLiteral (textBytes s) = some l)
+    (hx : hasExpLetter (textBytes s) = false) : l.exp = 0 := by
+  obtain ⟨sh, hwf, hr, hl⟩ := parse_sound _ l h
+  have h2 := hasExpLetter_render sh hwf
+  rw [hr, hx] at h2
+  rw [← hl]
+  cases hxx : sh.exp with
+  | none => simp [Shape.literal, hxx, expVal]
+  | some y => rw [hxx] at h2; simp at h2
+
+open C04Grammar C04Scan in
+theorem literal_digits (s : List Char) (l : Literal) (h : parseLiteral (textBytes s) = some l) :
+    (∀ b ∈ l.intDigits, isDigitB b = true) ∧ (∀ b ∈ l.fracDigits, isDigitB b = true) := by
+  obtain ⟨sh, hwf, hr, hl⟩ := parse_sound _ l h
+  rw [← hl]
+  exact ⟨hwf.1, hwf.2.1⟩
+
+open C04Scan in
+/-- **C04's main clause, about the code-shaped model.**  Let the text be a well-formed literal `l` (strict grammar on
+its UTF-8 bytes) with at most 100 significant digits, an exponent below `10^6` in magnitude and fewer than `10^9`
+fraction digits (the code counts in `i32`).  Then, in every rounding mode, the code-shaped pipeline — the scanner
+model of `DecModel/Scan.lean`, then the numeric phase of `DecModel/ScanNum.lean` transcribed statement by statement,
+ending in the word-level model of `bid_get_BID128` — returns, without reaching any panic site, the canonical encoding
+of the correctly rounded value `parseLiteralSpec mode l` (an exact zero for a zero literal, else `finish` on
+`coeff · 10^exp10`) together with exactly its flags. -/
+theorem fromStringCode_correct (mode : Mode) (s : List Char) (l : Literal)
+    (h : parseLiteral (textBytes s) = some l) (hd : l.sigDigits.length ≤ 100) (he : l.exp.natAbs < 1000000)
+    (hf : l.fracDigits.length < 1000000000) :
+    fromStringCode mode s = some (encode (parseLiteralSpec mode l).1, (parseLiteralSpec mode l).2) := by
+  have hsc : scanCP (s.map Char.toNat) = _ := scan_agrees_strict s l h hd he
+  unfold fromStringCode
+  by_cases hc : l.coeff = 0 ∧ hasExpLetter (textBytes s) = false
+  · rw [if_pos hc] at hsc
+    rw [fromStringCP_zero mode _ _ _ hsc]
+    have hexp0 := exp_zero_of_no_letter s l h hc.2
+    have hspec : parseLiteralSpec mode l = (zeroAt l.neg l.exp10, 0) := by
+      unfold parseLiteralSpec; rw [if_pos hc.1]
+    rw [hspec, early_zero_bits l.neg l.exp10 (by unfold Literal.exp10; omega)]
+  · rw [if_neg hc] at hsc
+    rw [fromStringCP_number mode _ _ _ hsc]
+    obtain ⟨hip, hfp⟩ := literal_digits s l h
+    exact numericPhase_correct mode l hip hfp hd he hf
+
+/-- … in particular the conversion of such a literal reaches no panic site, in the scanner or in the numeric phase -/
+theorem fromStringCode_no_panic (mode : Mode) (s : List Char) (l : Literal)
+    (h : parseLiteral (C04Scan.textBytes s) = some l) (hd : l.sigDigits.length ≤ 100) (he : l.exp.natAbs < 1000000)
+    (hf : l.fracDigits.length < 1000000000) : fromStringCode mode s ≠ none := by
+  rw [fromStringCode_correct mode s l h hd he hf]; simp
+
+/-! ## 17. the judge's interface -/
+
+theorem utf8DecodeLoose_ascii (b : Bytes) : ∀ f, (∀ x ∈ b, x < 128) → b.length ≤ f → utf8DecodeLoose f b = b := by
+  induction b with
+  | nil => intro f _ _; cases f <;> rfl
+  | cons x t ih =>
+    intro f hx hf
+    obtain ⟨f', rfl⟩ : ∃ f', f = f' + 1 := ⟨f - 1, by simp at hf; omega⟩
+    have hx0 : x < 0x80 := hx x (by simp)
+    have iht := ih f' (fun y hy => hx y (by simp [hy])) (by simp at hf; omega)
+    simp only [utf8DecodeLoose, hx0, if_true, iht]
+
+/-- an ASCII text is its own list of code points -/
+theorem utf8Decode_ascii (b : Bytes) (hb : ∀ x ∈ b, x < 128) : utf8Decode? b = some b := by
+  unfold utf8Decode?
+  rw [utf8DecodeLoose_ascii b _ hb (le_refl _)]
+  have h1 : b.all (fun c => c < 0xD800 || (0xE000 ≤ c && c < 0x110000)) = true := by
+    rw [List.all_eq_true]
+    intro c hc
+    have := hb c hc
+    simp only [Bool.or_eq_true, decide_eq_true_eq]
+    left; omega
+  have h2 : (utf8 b == b) = true := by rw [C04Scan.utf8_ascii b hb]; simp
+  simp [h1, h2]
+
+open C04Scan in
+/-- **The interface agrees with the theorem**: on the UTF-8 bytes of a well-formed literal (in the domain of
+`fromStringCode_correct`) `fromStringCodeBits` predicts the canonical encoding of `parseLiteralSpec` and its flags. -/
+theorem fromStringCodeBits_correct (mode : Mode) (s : List Char) (l : Literal)
+    (h : parseLiteral (textBytes s) = some l) (hd : l.sigDigits.length ≤ 100) (he : l.exp.natAbs < 1000000)
+    (hf : l.fracDigits.length < 1000000000) :
+    fromStringCodeBits mode (textBytes s)
+      = some (some (encode (parseLiteralSpec mode l).1, (parseLiteralSpec mode l).2)) := by
+  have hasc : ∀ b ∈ textBytes s, b < 128 := by
+    intro b hb
+    have := C04Grammar.literal_bytes _ l h b hb
+    simp only [isDigitB, Bool.and_eq_true, decide_eq_true_eq] at this
+    omega
+  have hcp : utf8 (s.map Char.toNat) = s.map Char.toNat := utf8_ascii _ (ascii_of_utf8 _ hasc)
+  have hfs := fromStringCode_correct mode s l h hd he hf
+  unfold fromStringCodeBits
+  rw [show textBytes s = s.map Char.toNat from hcp, utf8Decode_ascii _ (by rw [← hcp]; exact hasc), Option.map_some]
+  exact congrArg some hfs
+
+/-- bytes that are not UTF-8 are not a `&str`: no prediction -/
+example : fromStringCodeBits .rne [49, 0xC3] = none := by decide
+example : fromStringCodeBits .rne [0xC0, 0xB1] = none := by decide        -- an overlong form
+example : fromStringCodeBits .rne [0xED, 0xA0, 0x80] = none := by decide  -- a surrogate
+-- `nanñ`: well-formed UTF-8, quiet NaN
+example : fromStringCodeBits .rne [110, 97, 110, 0xC3, 0xB1] = some (some (0x7c * 2 ^ 120, 0)) := by decide
+
+/-! ## 18. the pipeline on concrete texts
+
+Each line was also run through the real function (`convert_from_decimal_character`, all outputs identical). -/
+
+/-- the decimal digits of `n` as characters -/
+def chars (n : Nat) : List Char := (digitBytes n).map Char.ofNat
+
+-- `1.5`: exact
+example : fromStringCode .rne ['1', '.', '5'] = some (0x303e000000000000000000000000000f, 0) := by decide +kernel
+-- 35 digits, a tie at digit 35 after an even digit: NearestEven keeps, NearestAway goes up; inexact
+example : fromStringCode .rne (chars 12345678901234567890123456789012345)
+    = some (0x30423cde6fff9732de825cd07e96aff2, 0x20) := by decide +kernel
+example : fromStringCode .rna (chars 12345678901234567890123456789012345)
+    = some (0x30423cde6fff9732de825cd07e96aff3, 0x20) := by decide +kernel
+-- the carry to 10^34: 1.000…E+35
+example : fromStringCode .rne (chars 99999999999999999999999999999999995)
+    = some (0x3044314dc6448d9338c15b0a00000000, 0x20) := by decide +kernel
+-- overflow: infinity, or the largest finite number when rounding toward zero
+example : fromStringCode .rne (['1', 'e'] ++ chars 6145) = some (0x78000000000000000000000000000000, 0x28) := by
+  decide +kernel
+example : fromStringCode .rtz (['-', '1', 'e'] ++ chars 6145) = some (0xdfffed09bead87c0378d8e63ffffffff, 0x28) := by
+  decide +kernel
+-- 35 digits rounded into the subnormal range, once, through the sticky digit (Upward)
+example : fromStringCode .rup (chars 12345678901234567890123456789012345 ++ ['e', '-'] ++ chars 6200)
+    = some (0x2dfdc1c36, 0x30) := by decide +kernel
+-- D17 (repaired): just below half of the least subnormal, NearestAway: 0, not 1
+example : fromStringCode .rna (chars 49999999999999999999999999999999991 ++ ['e', '-'] ++ chars 6211)
+    = some (0, 0x30) := by decide +kernel
+-- a zero literal far below the exponent range: an exact zero at the least exponent, whatever the mode (D10, repaired)
+example : fromStringCode .rup (['0', 'e', '-'] ++ chars 7000) = some (0, 0) := by decide +kernel
+-- 35 digits with a fraction at the largest exponent
+example : fromStringCode .rne (chars 1234567890123456789012345678901234 ++ ['.', '5', 'e'] ++ chars 6111)
+    = some (0x5ffe3cde6fff9732de825cd07e96aff2, 0x20) := by decide +kernel
+-- an exact subnormal: no flag
+example : fromStringCode .rdn (['-', '0', '.', '0', '0', '0', '0', '0', '1', 'e', '-'] ++ chars 6170)
+    = some (0x80000000000000000000000000000001, 0) := by decide +kernel
+-- the special spellings and the lenient texts go through the same function
+example : fromStringCode .rne ['-', 'I', 'n', 'f'] = some (0xf8 * 2 ^ 120, 0) := by decide +kernel
+example : fromStringCode .rne ['1', 'e', '5', 'x'] = some (0x304a0000000000000000000000000001, 0) := by decide +kernel
+example : fromStringCode .rne ['-', '1', 'x'] = some (0x7c * 2 ^ 120, 0) := by decide +kernel
+
+/-! ### the hypotheses of `fromStringCode_correct` are satisfiable, and its conclusion is the value above -/
+
+example :
+    parseLiteral (C04Scan.textBytes (chars 12345678901234567890123456789012345 ++ ['e', '-'] ++ chars 6200))
+        = some ⟨false, digitBytes 12345678901234567890123456789012345, [], -6200⟩ ∧
+      (⟨false, digitBytes 12345678901234567890123456789012345, [], -6200⟩ : Literal).sigDigits.length ≤ 100 ∧
+      (encode (parseLiteralSpec .rup ⟨false, digitBytes 12345678901234567890123456789012345, [], -6200⟩).1,
+        (parseLiteralSpec .rup ⟨false, digitBytes 12345678901234567890123456789012345, [], -6200⟩).2)
+        = (0x2dfdc1c36, 0x30) := by
+  decide +kernel
+
+/-! ### the panic sites of the numeric phase are live -/
+
+-- `buffer[i..n]` with `i > n`: the code forms `buffer[35..]` only when there are at least 35 digits
+example : slice (arrOf [49, 50]) 35 34 = none := by decide
+-- `char::to_digit(buffer[34], 10).unwrap()` on the blank of an unused entry: reached only with more than 34 digits
+example : (arrOf [49, 50])[34]? = some 32 ∧ toDigit10 32 = none := by decide
+-- a slice beyond the 100 entries
+example : slice (arrOf [49, 50]) 34 101 = none := by decide
 
 end Dec.C04ScanNum
